@@ -3,5 +3,1651 @@ From V.lib Require Import Prelude.
 From V.model Require Import Xlsx.
 From Coq Require Import ZifyBool.
 Open Scope N_scope.
+Ltac Zify.zify_post_hook ::= Z.to_euclidean_division_equations.
 
-Lemma stub_true : True. Proof. exact I. Qed.
+(** * 1. Column references: bijective base 26 *)
+
+Fixpoint valr (l : str) (a : N) : N :=
+  match l with [] => a | ch :: l' => valr l' (a * 26 + (ch - 64)) end.
+
+Lemma parse_col_valr l : parse_col l = valr l 0.
+Proof. unfold parse_col. generalize 0. induction l; simpl; auto. Qed.
+
+Lemma valr_shift l : forall a, valr l a = valr l 0 + a * 26 ^ (N.of_nat (length l)).
+Proof.
+  induction l as [|d l IH]; intros a; cbn [valr length].
+  - rewrite N.pow_0_r. lia.
+  - rewrite (IH (a * 26 + _)), (IH (0 * 26 + _)).
+    rewrite Nat2N.inj_succ, N.pow_succ_r by lia. lia.
+Qed.
+
+Lemma colref_loop_val : forall fuel n acc, n < 26 ^ (N.of_nat fuel) ->
+  valr (colref_loop fuel n acc) 0 = n * 26 ^ (N.of_nat (length acc)) + valr acc 0.
+Proof.
+  induction fuel as [|f IH]; intros n acc Hn.
+  - cbn [N.of_nat] in Hn. rewrite N.pow_0_r in Hn. assert (n = 0) by lia. subst. cbn [colref_loop]. lia.
+  - cbn [colref_loop]. destruct (n =? 0) eqn:E.
+    + assert (n = 0) by lia. subst. lia.
+    + rewrite Nat2N.inj_succ, N.pow_succ_r in Hn by lia.
+      rewrite IH.
+      * cbn [length valr]. rewrite Nat2N.inj_succ, N.pow_succ_r by lia.
+        set (Pw := 26 ^ N.of_nat (length acc)).
+        rewrite (valr_shift acc (0 * 26 + _)). fold Pw.
+        set (r := if n mod 26 =? 0 then 26 else n mod 26).
+        assert (Hr : 1 <= r <= 26) by (unfold r; destruct (n mod 26 =? 0) eqn:E2; lia).
+        assert (Hd : n = ((n - 1) / 26) * 26 + r) by (unfold r; destruct (n mod 26 =? 0) eqn:E2; lia).
+        set (q := (n - 1) / 26) in *.
+        replace (65 + r - 1 - 64) with r by lia.
+        assert (Hm : n * Pw = (q * 26 + r) * Pw) by (f_equal; exact Hd).
+        rewrite Hm. lia.
+      * assert (0 < 26 ^ N.of_nat f) by (apply N.neq_0_lt_0, N.pow_nonzero; lia). lia.
+Qed.
+
+Lemma colref_loop_letters : forall fuel n acc,
+  Forall (fun ch => 65 <= ch <= 90) acc ->
+  Forall (fun ch => 65 <= ch <= 90) (colref_loop fuel n acc).
+Proof.
+  induction fuel as [|f IH]; intros n acc Ha; cbn [colref_loop]; auto.
+  destruct (n =? 0) eqn:E; auto. apply IH. constructor; auto.
+  destruct (n mod 26 =? 0) eqn:E2; lia.
+Qed.
+
+Lemma size_fuel_enough n : n < 26 ^ N.of_nat (S (N.to_nat (N.size n))).
+Proof.
+  rewrite Nat2N.inj_succ, N2Nat.id.
+  destruct n as [|p]; [cbn; lia|].
+  assert (H1 : N.pos p < 2 ^ N.size (N.pos p)) by (apply N.size_gt).
+  assert (H2 : 2 ^ N.size (N.pos p) <= 26 ^ N.size (N.pos p)) by (apply N.pow_le_mono_l; lia).
+  assert (H3 : 26 ^ N.size (N.pos p) <= 26 ^ N.succ (N.size (N.pos p))) by (apply N.pow_le_mono_r; lia).
+  lia.
+Qed.
+
+Lemma column_letters_inverse n : 1 <= n -> parse_col (column_letters n) = n.
+Proof.
+  intros Hn. unfold column_letters. rewrite parse_col_valr, colref_loop_val.
+  - cbn [length valr N.of_nat]. rewrite N.pow_0_r. lia.
+  - apply size_fuel_enough.
+Qed.
+
+Lemma column_letters_AZ n : Forall (fun ch => 65 <= ch <= 90) (column_letters n).
+Proof. apply colref_loop_letters. constructor. Qed.
+
+Lemma column_letters_nonempty n : 1 <= n -> column_letters n <> [].
+Proof.
+  intros Hn E. pose proof (column_letters_inverse n Hn) as H. rewrite E in H. cbn in H. lia.
+Qed.
+
+Lemma column_letters_inj a b : 1 <= a -> 1 <= b -> column_letters a = column_letters b -> a = b.
+Proof.
+  intros Ha Hb E. rewrite <- (column_letters_inverse a Ha), <- (column_letters_inverse b Hb), E. reflexivity.
+Qed.
+
+(** the guard: ValueError exactly outside 1..16384 *)
+Lemma column_reference_guard n :
+  (column_reference n = Err ValueErr <-> (n < 1 \/ 16384 < n)) /\
+  (1 <= n <= 16384 -> column_reference n = Ok (column_letters n)).
+Proof.
+  unfold column_reference. destruct ((n <? 1) || (16384 <? n)) eqn:E; split.
+  - split; auto. intros _. lia.
+  - intros; lia.
+  - split; [discriminate|]. intros; lia.
+  - auto.
+Qed.
+
+Lemma column_reference_ok n s : column_reference n = Ok s -> 1 <= n <= 16384 /\ s = column_letters n.
+Proof.
+  unfold column_reference. destruct ((n <? 1) || (16384 <? n)) eqn:E; [discriminate|].
+  intros H; inversion H; subst. split; [lia|auto].
+Qed.
+
+(** single letters *)
+Lemma column_letters_single n : 1 <= n <= 26 -> column_letters n = [65 + n - 1].
+Proof.
+  intros Hn. unfold column_letters.
+  assert (Hs : exists f, N.to_nat (N.size n) = S f).
+  { destruct n as [|p]; [lia|]. exists (pred (N.to_nat (N.size (N.pos p)))).
+    assert (0 < N.size (N.pos p)) by (cbn; lia). lia. }
+  destruct Hs as [f ->]. cbn [colref_loop].
+  replace (n =? 0) with false by lia.
+  replace ((n - 1) / 26) with 0 by lia.
+  replace (if n mod 26 =? 0 then 26 else n mod 26) with n by (destruct (n mod 26 =? 0) eqn:E; lia).
+  destruct f; reflexivity.
+Qed.
+
+(** * 2. The sheet: what a cell holds after the writers ran *)
+
+Lemma key_eqb_true a b r c : key_eqb (a, b) (r, c) = true <-> a = r /\ b = c.
+Proof. unfold key_eqb; cbn [fst snd]. rewrite andb_true_iff, !N.eqb_eq. tauto. Qed.
+
+Lemma get_store_same sh r c v : in_dims r c = true -> get (store sh r c v) r c = v.
+Proof.
+  intros H. unfold store. rewrite H. cbn [get].
+  replace (key_eqb (r, c) (r, c)) with true; auto.
+  symmetry. apply key_eqb_true; auto.
+Qed.
+
+Lemma get_store_other sh r c v r' c' : (r <> r' \/ c <> c') -> get (store sh r c v) r' c' = get sh r' c'.
+Proof.
+  intros H. unfold store. destruct (in_dims r c); auto. cbn [get].
+  destruct (key_eqb (r, c) (r', c')) eqn:E; auto. apply key_eqb_true in E. tauto.
+Qed.
+
+Lemma get_xl_write_other sh r c v fmt r' c' :
+  (r <> r' \/ c <> c') -> get (xl_write sh r c v fmt) r' c' = get sh r' c'.
+Proof.
+  intros H. unfold xl_write. destruct (is_empty (xl_cell v) && negb fmt); auto.
+  apply get_store_other; auto.
+Qed.
+
+Lemma get_xl_write_fmt sh r c v : in_dims r c = true -> get (xl_write sh r c v true) r c = xl_cell v.
+Proof.
+  intros H. unfold xl_write. rewrite andb_false_r. apply get_store_same; auto.
+Qed.
+
+(** without a format a blank stores nothing: the cell keeps what it had, which is
+    Empty wherever nothing was written before *)
+Lemma get_xl_write_nofmt sh r c v :
+  in_dims r c = true -> get sh r c = Empty -> get (xl_write sh r c v false) r c = xl_cell v.
+Proof.
+  intros H He. unfold xl_write. destruct (xl_cell v) eqn:E; cbn [is_empty negb andb];
+    try (apply get_store_same; auto). exact He.
+Qed.
+
+Lemma get_write_column_miss : forall vs sh r0 c fmt r c',
+  (c' <> c \/ r < r0 \/ r0 + len_N vs <= r) ->
+  get (write_column sh r0 c vs fmt) r c' = get sh r c'.
+Proof.
+  induction vs as [|v vs IH]; intros sh r0 c fmt r c' H; cbn [write_column]; auto.
+  unfold len_N in H. cbn [length] in H. rewrite Nat2N.inj_succ in H.
+  rewrite IH by (unfold len_N; lia).
+  apply get_xl_write_other. lia.
+Qed.
+
+Lemma get_write_column_hit : forall vs sh r0 c k v,
+  nth_error vs k = Some v -> in_dims (r0 + N.of_nat k) c = true ->
+  get (write_column sh r0 c vs true) (r0 + N.of_nat k) c = xl_cell v.
+Proof.
+  induction vs as [|v0 vs IH]; intros sh r0 c k v Hn Hd; [destruct k; discriminate|].
+  cbn [write_column]. destruct k as [|k].
+  - cbn in Hn. inversion Hn; subst. cbn [N.of_nat] in *. rewrite N.add_0_r in *.
+    rewrite get_write_column_miss by lia. apply get_xl_write_fmt; auto.
+  - cbn [nth_error] in Hn. rewrite Nat2N.inj_succ in *.
+    replace (r0 + N.succ (N.of_nat k)) with (r0 + 1 + N.of_nat k) in * by lia.
+    apply IH; auto.
+Qed.
+
+(** first-match lookup in an index-keyed list *)
+Fixpoint lookup {A} (k : N) (l : list (N * A)) : option A :=
+  match l with
+  | [] => None
+  | (i, v) :: r => if i =? k then Some v else lookup k r
+  end.
+
+Lemma lookup_pt_lookup k l : lookup_pt k l = lookup k l.
+Proof. induction l as [|[i v] l IH]; cbn; auto. rewrite IH; auto. Qed.
+
+Lemma lookup_none_notin {A} k (l : list (N * A)) : lookup k l = None -> forall e, In e l -> fst e <> k.
+Proof.
+  induction l as [|[i v] l IH]; cbn; intros H e He; [tauto|].
+  destruct (N.eqb_spec i k); [discriminate|]. destruct He as [<-|He]; cbn; auto.
+Qed.
+
+Lemma lookup_in {A} k (l : list (N * A)) v : lookup k l = Some v -> In (k, v) l.
+Proof.
+  induction l as [|[i w] l IH]; cbn; [discriminate|].
+  destruct (N.eqb_spec i k); intros H.
+  - inversion H; subst; auto.
+  - right; auto.
+Qed.
+
+Lemma lookup_map {A B} (g : A -> B) k (l : list (N * A)) :
+  lookup k (map (fun e => (fst e, g (snd e))) l) = option_map g (lookup k l).
+Proof. induction l as [|[i v] l IH]; cbn; auto. destruct (i =? k); auto. Qed.
+
+Lemma get_write_cat_column_miss : forall level sh col r c',
+  (c' <> col \/ (forall e, In e level -> fst e + 1 <> r)) ->
+  get (write_cat_column sh col level) r c' = get sh r c'.
+Proof.
+  unfold write_cat_column.
+  induction level as [|e level IH]; intros sh col r c' H; cbn [fold_left]; auto.
+  rewrite IH.
+  - apply get_xl_write_other. destruct H as [H|H]; [right; auto|].
+    left. apply H. left; auto.
+  - destruct H as [H|H]; [left; auto|]. right. intros e' He'. apply H. right; auto.
+Qed.
+
+Lemma get_write_cat_column : forall level sh col k,
+  NoDup (map fst level) -> in_dims (k + 1) col = true ->
+  get (write_cat_column sh col level) (k + 1) col =
+    match lookup k level with Some lab => xl_cell lab | None => get sh (k + 1) col end.
+Proof.
+  induction level as [|[i lab] level IH]; intros sh col k Hnd Hd; [reflexivity|].
+  inversion Hnd as [|? ? Hni Hnd']; subst.
+  change (write_cat_column sh col ((i, lab) :: level))
+    with (write_cat_column (xl_write sh (i + 1) col lab true) col level).
+  cbn [lookup]. destruct (N.eqb_spec i k) as [->|Hne].
+  - rewrite get_write_cat_column_miss.
+    + apply get_xl_write_fmt; auto.
+    + right. intros e He E. apply Hni. cbn [fst]. replace k with (fst e) by lia. apply in_map; auto.
+  - rewrite IH by auto. destruct (lookup k level); auto.
+    apply get_xl_write_other. left. cbn [fst]. lia.
+Qed.
+
+Lemma get_write_levels_miss : forall lvls sh depth i r c,
+  i + len_N lvls <= depth ->
+  (depth - i <= c \/ c + i + len_N lvls < depth) ->
+  get (write_levels sh depth i lvls) r c = get sh r c.
+Proof.
+  induction lvls as [|l lvls IH]; intros sh depth i r c Hb H; cbn [write_levels]; auto.
+  unfold len_N in *. cbn [length] in *. rewrite Nat2N.inj_succ in *.
+  rewrite IH by lia. apply get_write_cat_column_miss. left. lia.
+Qed.
+
+Lemma get_write_levels_hit : forall lvls sh depth i j l k,
+  i + len_N lvls <= depth ->
+  Forall (fun l => NoDup (map fst l)) lvls ->
+  nth_error lvls j = Some l ->
+  in_dims (k + 1) (depth - (i + N.of_nat j) - 1) = true ->
+  get (write_levels sh depth i lvls) (k + 1) (depth - (i + N.of_nat j) - 1) =
+    match lookup k l with Some lab => xl_cell lab
+                     | None => get sh (k + 1) (depth - (i + N.of_nat j) - 1) end.
+Proof.
+  induction lvls as [|l0 lvls IH]; intros sh depth i j l k Hb Hnd Hn Hd; [destruct j; discriminate|].
+  inversion Hnd; subst. unfold len_N in *. cbn [length] in *. rewrite Nat2N.inj_succ in *.
+  cbn [write_levels]. destruct j as [|j].
+  - cbn in Hn. inversion Hn; subst. cbn [N.of_nat] in *. rewrite N.add_0_r in *.
+    rewrite get_write_levels_miss by (unfold len_N; lia).
+    apply get_write_cat_column; auto.
+  - cbn [nth_error] in Hn. rewrite Nat2N.inj_succ in *.
+    replace (i + N.succ (N.of_nat j)) with (i + 1 + N.of_nat j) in * by lia.
+    rewrite (IH _ depth (i + 1) j l k) by (auto; unfold len_N; lia).
+    destruct (lookup k l); auto.
+    apply get_write_cat_column_miss. left.
+    assert (N.of_nat j < N.of_nat (length lvls)).
+    { assert (Hs : nth_error lvls j <> None) by congruence.
+      apply nth_error_Some in Hs. lia. }
+    lia.
+Qed.
+
+Definition untouched_from (sh : sheet) (c0 : N) : Prop := forall r c, c0 <= c -> get sh r c = Empty.
+
+Lemma get_write_series_miss : forall ss sh off idx r c,
+  c < idx + off -> get (write_series sh off idx ss) r c = get sh r c.
+Proof.
+  induction ss as [|s ss IH]; intros sh off idx r c H; cbn [write_series]; auto.
+  rewrite IH by lia. rewrite get_write_column_miss by lia. apply get_xl_write_other. lia.
+Qed.
+
+Lemma untouched_after_series sh off idx s :
+  untouched_from sh (idx + off) ->
+  untouched_from (write_column (xl_write sh 0 (idx + off) (PStr (name_of (s_name s))) false) 1 (idx + off)
+                    (map pv_of_val (s_vals s)) true) (idx + 1 + off).
+Proof.
+  intros H r c Hc. rewrite get_write_column_miss by lia.
+  rewrite get_xl_write_other by lia. apply H. lia.
+Qed.
+
+Lemma get_write_series_name : forall ss sh off idx j s,
+  untouched_from sh (idx + off) -> nth_error ss j = Some s ->
+  in_dims 0 (idx + N.of_nat j + off) = true ->
+  get (write_series sh off idx ss) 0 (idx + N.of_nat j + off) = xl_write_str (name_of (s_name s)).
+Proof.
+  induction ss as [|s0 ss IH]; intros sh off idx j s Hu Hn Hd; [destruct j; discriminate|].
+  cbn [write_series]. destruct j as [|j].
+  - cbn in Hn. inversion Hn; subst. cbn [N.of_nat] in *. rewrite N.add_0_r in *.
+    rewrite get_write_series_miss by lia.
+    rewrite get_write_column_miss by lia.
+    rewrite get_xl_write_nofmt; auto. apply Hu. lia.
+  - cbn [nth_error] in Hn. rewrite Nat2N.inj_succ in *.
+    replace (idx + N.succ (N.of_nat j) + off) with (idx + 1 + N.of_nat j + off) in * by lia.
+    apply IH; auto. apply untouched_after_series; auto.
+Qed.
+
+Lemma get_write_series_val : forall ss sh off idx j s k v,
+  nth_error ss j = Some s -> nth_error (s_vals s) k = Some v ->
+  in_dims (1 + N.of_nat k) (idx + N.of_nat j + off) = true ->
+  get (write_series sh off idx ss) (1 + N.of_nat k) (idx + N.of_nat j + off) = xl_cell (pv_of_val v).
+Proof.
+  induction ss as [|s0 ss IH]; intros sh off idx j s k v Hn Hk Hd; [destruct j; discriminate|].
+  cbn [write_series]. destruct j as [|j].
+  - cbn in Hn. inversion Hn; subst. cbn [N.of_nat] in *. rewrite N.add_0_r in *.
+    rewrite get_write_series_miss by lia.
+    apply get_write_column_hit; auto. rewrite nth_error_map, Hk. reflexivity.
+  - cbn [nth_error] in Hn. rewrite Nat2N.inj_succ in *.
+    replace (idx + N.succ (N.of_nat j) + off) with (idx + 1 + N.of_nat j + off) in * by lia.
+    eapply IH; eauto.
+Qed.
+
+(** * 3. The category hierarchy *)
+
+Fixpoint cat_ind2 (P : cat -> Prop)
+  (H : forall l subs, Forall P subs -> P (Cat l subs)) (c : cat) : P c :=
+  match c with
+  | Cat l subs =>
+      H l subs ((fix go (ss : list cat) : Forall P ss :=
+                   match ss with
+                   | [] => Forall_nil P
+                   | s :: r => Forall_cons s (cat_ind2 P H s) (go r)
+                   end) subs)
+  end.
+
+Lemma leaf_count_pos c : 1 <= leaf_count c.
+Proof.
+  induction c as [l subs IH] using cat_ind2. cbn [leaf_count].
+  destruct subs as [|s0 r]; [lia|]. inversion IH; subst. cbn [map sumN fold_right]. lia.
+Qed.
+
+Lemma leaf_count_subs l subs : subs <> [] -> leaf_count (Cat l subs) = forest_leaf_count subs.
+Proof. destruct subs; [congruence|reflexivity]. Qed.
+
+(** [spaced lo l hi]: the entries of a level tile the interval lo..hi left to right,
+    each entry owning leaf_count positions from its idx on *)
+Fixpoint spaced (lo : N) (l : list (N * cat)) (hi : N) : Prop :=
+  match l with
+  | [] => lo <= hi
+  | ic :: r => lo <= fst ic /\ spaced (fst ic + leaf_count (snd ic)) r hi
+  end.
+
+Lemma spaced_le : forall l lo hi, spaced lo l hi -> lo <= hi.
+Proof.
+  induction l as [|[i c] l IH]; cbn; intros lo hi H; auto.
+  destruct H as [H1 H2]. apply IH in H2. pose proof (leaf_count_pos c). lia.
+Qed.
+
+Lemma spaced_weaken : forall l lo lo' hi, lo' <= lo -> spaced lo l hi -> spaced lo' l hi.
+Proof. destruct l as [|[i c] l]; cbn; intros; [lia|]. intuition lia. Qed.
+
+Lemma spaced_app : forall a lo mid hi b, spaced lo a mid -> spaced mid b hi -> spaced lo (a ++ b) hi.
+Proof.
+  induction a as [|[i c] a IH]; cbn [app spaced]; intros lo mid hi b Ha Hb.
+  - eapply spaced_weaken; eauto.
+  - destruct Ha as [H1 H2]. split; auto. eapply IH; eauto.
+Qed.
+
+Lemma spaced_place : forall cs s, spaced s (place s cs) (s + forest_leaf_count cs).
+Proof.
+  unfold forest_leaf_count.
+  induction cs as [|c cs IH]; intros s; cbn [place spaced map sumN fold_right fst snd].
+  - lia.
+  - split; [lia|]. specialize (IH (s + leaf_count c)).
+    replace (s + (leaf_count c + fold_right N.add 0 (map leaf_count cs)))
+      with (s + leaf_count c + sumN (map leaf_count cs)) by (unfold sumN; lia). exact IH.
+Qed.
+
+Lemma spaced_next_level : forall l lo hi, spaced lo l hi -> spaced lo (next_level l) hi.
+Proof.
+  unfold next_level.
+  induction l as [|[i c] l IH]; cbn [flat_map spaced fst snd]; intros lo hi H; auto.
+  destruct H as [H1 H2]. destruct c as [lab subs]. cbn [cat_subs].
+  destruct subs as [|s0 r].
+  - cbn [place app]. apply IH. eapply spaced_weaken; [|exact H2]. lia.
+  - eapply spaced_app.
+    + eapply spaced_weaken; [exact H1|]. apply spaced_place.
+    + rewrite <- leaf_count_subs with (l := lab) by congruence. apply IH; auto.
+Qed.
+
+Lemma spaced_bounds : forall l lo hi, spaced lo l hi -> forall e, In e l -> lo <= fst e < hi.
+Proof.
+  induction l as [|[i c] l IH]; cbn [spaced In fst snd]; intros lo hi H e He; [tauto|].
+  destruct H as [H1 H2]. pose proof (leaf_count_pos c). pose proof (spaced_le _ _ _ H2).
+  destruct He as [<-|He]; cbn [fst]; [lia|].
+  specialize (IH _ _ H2 e He). lia.
+Qed.
+
+Lemma spaced_nodup : forall l lo hi, spaced lo l hi -> NoDup (map fst l).
+Proof.
+  induction l as [|[i c] l IH]; cbn [spaced map fst snd]; intros lo hi H; constructor.
+  - destruct H as [H1 H2]. intros Hin. apply in_map_iff in Hin as [e [He1 He2]].
+    pose proof (spaced_bounds _ _ _ H2 e He2). pose proof (leaf_count_pos c). lia.
+  - destruct H as [H1 H2]. eapply IH; eauto.
+Qed.
+
+(** levels as lists of nodes *)
+Fixpoint node_levels_fuel (fuel : nat) (l : list (N * cat)) : list (list (N * cat)) :=
+  match fuel with
+  | O => []
+  | S f =>
+      let nl := next_level l in
+      (match nl with [] => [] | _ => node_levels_fuel f nl end) ++ [l]
+  end.
+Definition node_levels (cs : list cat) : list (list (N * cat)) :=
+  node_levels_fuel (S (forest_height cs)) (place 0 cs).
+
+Lemma levels_fuel_nodes : forall fuel l, levels_fuel fuel l = map level_entries (node_levels_fuel fuel l).
+Proof.
+  induction fuel as [|f IH]; intros l; cbn [levels_fuel node_levels_fuel]; auto.
+  rewrite map_app. cbn [map]. f_equal. destruct (next_level l); auto.
+Qed.
+
+Lemma levels_nodes cs : levels cs = map level_entries (node_levels cs).
+Proof. apply levels_fuel_nodes. Qed.
+
+Lemma node_levels_closed (Q : list (N * cat) -> Prop) :
+  (forall l, Q l -> Q (next_level l)) ->
+  forall fuel l, Q l -> Forall Q (node_levels_fuel fuel l).
+Proof.
+  intros Hc. induction fuel as [|f IH]; intros l Hl; cbn [node_levels_fuel]; [constructor|].
+  apply Forall_app. split; [|constructor; auto].
+  destruct (next_level l) eqn:E; [constructor|]. rewrite <- E. apply IH. apply Hc; auto.
+Qed.
+
+Lemma node_levels_spaced cs : Forall (fun l => spaced 0 l (forest_leaf_count cs)) (node_levels cs).
+Proof.
+  apply node_levels_closed.
+  - intros l. apply spaced_next_level.
+  - apply (spaced_place cs 0).
+Qed.
+
+(** depth *)
+Lemma check_depths_ok {A} (f : A -> res N) d0 l :
+  check_depths d0 (map f l) = Ok tt <-> Forall (fun x => f x = Ok d0) l.
+Proof.
+  induction l as [|x l IH]; cbn [map check_depths].
+  - split; auto.
+  - destruct (f x) as [d|e] eqn:E; cbn [bind].
+    + destruct (N.eqb_spec d d0) as [->|Hne].
+      * rewrite IH. split; intros H; [constructor; auto|inversion H; auto].
+      * split; [discriminate|]. intros H; inversion H; congruence.
+    + split; [discriminate|]. intros H; inversion H; congruence.
+Qed.
+
+Lemma check_depths_unit d0 l u : check_depths d0 l = Ok u -> check_depths d0 l = Ok tt.
+Proof. destruct u; auto. Qed.
+
+Lemma cat_depth_leaf l : cat_depth (Cat l []) = Ok 1.
+Proof. reflexivity. Qed.
+
+Lemma cat_depth_node l s0 rest d :
+  cat_depth (Cat l (s0 :: rest)) = Ok d <->
+  exists d0, d = d0 + 1 /\ Forall (fun s => cat_depth s = Ok d0) (s0 :: rest).
+Proof.
+  cbn [cat_depth]. fold (map cat_depth rest).
+  destruct (cat_depth s0) as [d0|e] eqn:E0; cbn [bind].
+  - destruct (check_depths d0 (map cat_depth rest)) as [[]|e] eqn:E1; cbn [bind].
+    + apply check_depths_ok in E1. split.
+      * intros H; inversion H; subst. exists d0; split; auto.
+      * intros [d1 [-> H]]. inversion H; subst. congruence.
+    + split; [discriminate|]. intros [d1 [-> H]]. inversion H; subst.
+      assert (d1 = d0) by congruence. subst.
+      apply check_depths_ok in H3. congruence.
+  - split; [discriminate|]. intros [d1 [-> H]]. inversion H; congruence.
+Qed.
+
+Lemma cat_depth_pos c d : cat_depth c = Ok d -> 1 <= d.
+Proof.
+  destruct c as [l [|s0 rest]]; intros H.
+  - inversion H; lia.
+  - apply cat_depth_node in H as [d0 [-> _]]. lia.
+Qed.
+
+Lemma forest_depth_spec cs d :
+  forest_depth cs = Ok d <->
+  (cs = [] /\ d = 0) \/ (cs <> [] /\ Forall (fun c => cat_depth c = Ok d) cs).
+Proof.
+  destruct cs as [|c0 rest]; cbn [forest_depth].
+  - split.
+    + intros H; inversion H; auto.
+    + intros [[_ ->]|[H _]]; congruence.
+  - fold (map cat_depth rest).
+    destruct (cat_depth c0) as [d0|e] eqn:E0; cbn [bind].
+    + destruct (check_depths d0 (map cat_depth rest)) as [[]|e] eqn:E1; cbn [bind].
+      * apply check_depths_ok in E1. split.
+        -- intros H; inversion H; subst. right; split; [congruence|constructor; auto].
+        -- intros [[H _]|[_ H]]; [congruence|]. inversion H; subst. congruence.
+      * split; [discriminate|]. intros [[H _]|[_ H]]; [congruence|]. inversion H; subst.
+        assert (d = d0) by congruence. subst. apply check_depths_ok in H3. congruence.
+    + split; [discriminate|]. intros [[H _]|[_ H]]; [congruence|]. inversion H; congruence.
+Qed.
+
+Definition all_depth (d : N) (l : list (N * cat)) : Prop :=
+  Forall (fun ic => cat_depth (snd ic) = Ok d) l.
+
+Lemma place_snd : forall cs s, map snd (place s cs) = cs.
+Proof. induction cs; intros; cbn; f_equal; auto. Qed.
+
+Lemma all_depth_place d cs s : Forall (fun c => cat_depth c = Ok d) cs -> all_depth d (place s cs).
+Proof.
+  revert s. induction cs as [|c cs IH]; intros s H; cbn [place]; [constructor|].
+  inversion H; subst. constructor; auto. apply IH; auto.
+Qed.
+
+Lemma all_depth_1_next l : all_depth 1 l -> next_level l = [].
+Proof.
+  unfold next_level. induction l as [|[i c] l IH]; intros H; cbn [flat_map]; auto.
+  inversion H as [|? ? Hc Hl]; subst. rewrite IH by auto. cbn [fst snd] in *.
+  destruct c as [lab [|s0 rest]]; [reflexivity|].
+  apply cat_depth_node in Hc as [d0 [Hd Hf]]. inversion Hf as [|? ? Hs0 Hr]; subst.
+  apply cat_depth_pos in Hs0. lia.
+Qed.
+
+Lemma all_depth_succ_next d l :
+  1 <= d -> all_depth (d + 1) l -> l <> [] ->
+  next_level l <> [] /\ all_depth d (next_level l).
+Proof.
+  intros Hd H Hne. unfold next_level. split.
+  - destruct l as [|[i c] l]; [congruence|]. inversion H as [|? ? Hc Hl]; subst. cbn [flat_map fst snd] in *.
+    destruct c as [lab [|s0 rest]].
+    + cbn in Hc. inversion Hc. lia.
+    + cbn [cat_subs place]. discriminate.
+  - clear Hne. induction l as [|[i c] l IH]; cbn [flat_map]; [constructor|].
+    inversion H as [|? ? Hc Hl]; subst. cbn [fst snd] in *. apply Forall_app. split.
+    + destruct c as [lab [|s0 rest]]; [constructor|].
+      apply cat_depth_node in Hc as [d0 [Hd0 Hf]]. assert (d0 = d) by lia. subst.
+      cbn [cat_subs]. apply all_depth_place; auto.
+    + apply IH; auto.
+Qed.
+
+Lemma node_levels_fuel_length : forall fuel d l,
+  1 <= d -> (N.to_nat d <= fuel)%nat -> l <> [] -> all_depth d l ->
+  length (node_levels_fuel fuel l) = N.to_nat d.
+Proof.
+  induction fuel as [|f IH]; intros d l Hd Hf Hne H; [lia|].
+  cbn [node_levels_fuel]. rewrite app_length. cbn [length].
+  destruct (N.eq_dec d 1) as [->|Hn1].
+  - rewrite all_depth_1_next by auto. cbn. lia.
+  - replace d with (d - 1 + 1) in H by lia.
+    destruct (all_depth_succ_next (d - 1) l) as [Hnn Hall]; auto; [lia|].
+    destruct (next_level l) eqn:E; [congruence|]. rewrite <- E in *.
+    rewrite (IH (d - 1)); auto; lia.
+Qed.
+
+Lemma cat_depth_height c d : cat_depth c = Ok d -> (N.to_nat d <= height c)%nat.
+Proof.
+  revert d. induction c as [l subs IH] using cat_ind2. intros d H.
+  destruct subs as [|s0 rest].
+  - inversion H; subst. cbn. lia.
+  - apply cat_depth_node in H as [d0 [-> Hf]]. inversion Hf as [|? ? Hs0 Hr]; subst.
+    inversion IH as [|? ? IH0 IHr]; subst.
+    specialize (IH0 _ Hs0). cbn [height map fold_right]. lia.
+Qed.
+
+Lemma forest_height_ge cs c : In c cs -> (height c <= forest_height cs)%nat.
+Proof.
+  unfold forest_height. induction cs as [|c0 cs IH]; cbn [In map fold_right]; [tauto|].
+  intros [->|H]; [lia|]. specialize (IH H). lia.
+Qed.
+
+Lemma node_levels_length cs d :
+  forest_depth cs = Ok d -> 1 <= d -> length (node_levels cs) = N.to_nat d.
+Proof.
+  intros H Hd. apply forest_depth_spec in H as [[-> ->]|[Hne Hf]]; [lia|].
+  unfold node_levels. apply node_levels_fuel_length; auto.
+  - destruct cs as [|c0 cs]; [congruence|]. inversion Hf as [|? ? Hc0 Hr]; subst.
+    pose proof (cat_depth_height _ _ Hc0). pose proof (forest_height_ge (c0 :: cs) c0 (or_introl eq_refl)). lia.
+  - destruct cs; [congruence|]. cbn. discriminate.
+  - apply all_depth_place; auto.
+Qed.
+
+Lemma levels_length cs d : forest_depth cs = Ok d -> 1 <= d -> len_N (levels cs) = d.
+Proof.
+  intros H Hd. unfold len_N. rewrite levels_nodes, map_length, (node_levels_length cs d) by auto. lia.
+Qed.
+
+Lemma forest_depth_pos_nonempty cs d : forest_depth cs = Ok d -> 1 <= d -> 1 <= forest_leaf_count cs.
+Proof.
+  intros H Hd. apply forest_depth_spec in H as [[-> ->]|[Hne _]]; [lia|].
+  destruct cs as [|c cs]; [congruence|]. unfold forest_leaf_count. cbn [map sumN fold_right].
+  pose proof (leaf_count_pos c). lia.
+Qed.
+
+(** * 4. Category charts: what the sheet holds where the references point *)
+
+Lemma level_entries_fst l : map fst (level_entries l) = map fst l.
+Proof. unfold level_entries. rewrite map_map. reflexivity. Qed.
+
+Lemma levels_nodup cs : Forall (fun l => NoDup (map fst l)) (levels cs).
+Proof.
+  rewrite levels_nodes. apply Forall_forall. intros l Hin.
+  apply in_map_iff in Hin as [nl [<- Hin]].
+  pose proof (node_levels_spaced cs) as Hs. rewrite Forall_forall in Hs.
+  rewrite level_entries_fst. eapply spaced_nodup. apply Hs; auto.
+Qed.
+
+Lemma cat_sheet_eq d depth sh :
+  forest_depth (cd_cats d) = Ok depth -> cat_sheet d = Ok sh ->
+  sh = write_series (write_levels [] depth 0 (levels (cd_cats d))) depth 0 (cd_series d).
+Proof. unfold cat_sheet. intros ->. cbn [bind]. congruence. Qed.
+
+Lemma levels_sheet_untouched cs depth :
+  forest_depth cs = Ok depth -> untouched_from (write_levels [] depth 0 (levels cs)) depth.
+Proof.
+  intros H r c Hc. destruct (N.eq_dec depth 0) as [->|Hn].
+  - apply forest_depth_spec in H as [[-> _]|[Hne Hf]].
+    + reflexivity.
+    + destruct cs as [|c0 cs]; [congruence|]. inversion Hf as [|? ? Hc0 _]; subst.
+      apply cat_depth_pos in Hc0. lia.
+  - rewrite get_write_levels_miss; auto.
+    + rewrite (levels_length cs depth) by (auto; lia). lia.
+    + lia.
+Qed.
+
+Section CatSheet.
+  Variables (d : catdata) (depth : N) (sh : sheet).
+  Hypothesis Hdepth : forest_depth (cd_cats d) = Ok depth.
+  Hypothesis Hsh : cat_sheet d = Ok sh.
+
+  (** the series name is in row 1 of the column after the category columns *)
+  Lemma cat_cell_name j s :
+    nth_error (cd_series d) j = Some s -> in_dims 0 (depth + N.of_nat j) = true ->
+    get sh 0 (depth + N.of_nat j) = xl_write_str (name_of (s_name s)).
+  Proof.
+    intros Hn Hd. rewrite (cat_sheet_eq d depth sh Hdepth Hsh).
+    replace (depth + N.of_nat j) with (0 + N.of_nat j + depth) in * by lia.
+    apply get_write_series_name; auto.
+    replace (0 + depth) with depth by lia. apply levels_sheet_untouched; auto.
+  Qed.
+
+  (** value k of series j is in row k + 2 of that column *)
+  Lemma cat_cell_value j s k v :
+    nth_error (cd_series d) j = Some s -> nth_error (s_vals s) k = Some v ->
+    in_dims (1 + N.of_nat k) (depth + N.of_nat j) = true ->
+    get sh (1 + N.of_nat k) (depth + N.of_nat j) = xl_cell (pv_of_val v).
+  Proof.
+    intros Hn Hk Hd. rewrite (cat_sheet_eq d depth sh Hdepth Hsh).
+    replace (depth + N.of_nat j) with (0 + N.of_nat j + depth) in * by lia.
+    eapply get_write_series_val; eauto.
+  Qed.
+
+  (** level j (leaf level = 0) is in column depth - j; row idx + 2 holds the label
+      of the category with that idx, other rows of the column are empty *)
+  Lemma cat_cell_level j l k :
+    1 <= depth -> nth_error (levels (cd_cats d)) j = Some l ->
+    in_dims (k + 1) (depth - N.of_nat j - 1) = true ->
+    get sh (k + 1) (depth - N.of_nat j - 1) =
+      match lookup k l with Some lab => xl_cell lab | None => Empty end.
+  Proof.
+    intros Hd1 Hn Hd. rewrite (cat_sheet_eq d depth sh Hdepth Hsh).
+    rewrite get_write_series_miss by lia.
+    replace (depth - N.of_nat j - 1) with (depth - (0 + N.of_nat j) - 1) in * by lia.
+    rewrite (get_write_levels_hit _ _ _ _ _ l k); auto.
+    - rewrite (levels_length _ depth) by auto. lia.
+    - apply levels_nodup.
+  Qed.
+End CatSheet.
+
+(** ** domain of the agreement theorem *)
+
+Definition str_safe (s : str) : bool :=
+  negb (formula_like s) && negb (array_formula_like s) && negb (url_like s)
+  && (len_N s <=? xl_strmax).
+
+Lemma str_safe_agrees s : str_safe s = true -> cell_agrees (Some (CStr s)) (xl_write_str s) = true.
+Proof.
+  unfold str_safe. intros H. apply andb_true_iff in H as [H H4].
+  apply andb_true_iff in H as [H H3]. apply andb_true_iff in H as [H1 H2].
+  apply negb_true_iff in H1, H2, H3.
+  destruct s as [|x r]; [reflexivity|].
+  unfold xl_write_str. rewrite H1, H2, H3.
+  rewrite firstn_all2 by (unfold len_N in H4; lia).
+  cbn [cell_agrees]. apply str_eqb_refl.
+Qed.
+
+Definition label_ok_str (l : pyval) : bool :=
+  match l with PNone => true | PStr s => str_safe s | PNum _ _ => true | _ => false end.
+
+Definition label_ok_num (b : bool) (l : pyval) : bool :=
+  match l with
+  | PNum _ _ => true
+  | PStr s => str_safe s
+  | PDate _ => negb b
+  | PDateTime ord us => negb b && (us =? 0) && negb (ord =? ord_1900_01_01)%Z
+  | PNone => false
+  end.
+
+Lemma label_of_idem l : label_of (label_of l) = label_of l.
+Proof. destruct l; reflexivity. Qed.
+
+Lemma label_str_val_label_of l : label_str_val (label_of l) = label_str_val l.
+Proof. unfold label_str_val. rewrite label_of_idem. reflexivity. Qed.
+
+Lemma label_ok_str_agrees l :
+  label_ok_str l = true -> cell_agrees (Some (label_str_val l)) (xl_cell (label_of l)) = true.
+Proof.
+  destruct l as [|s|n dn|o|o u]; cbn [label_ok_str label_of label_str_val xl_cell]; intros H; try discriminate.
+  - reflexivity.
+  - apply str_safe_agrees; auto.
+  - cbn [cell_agrees]. apply Z.eqb_refl.
+Qed.
+
+Lemma date_serial_agrees ord :
+  (excel_date_number false ord * Z.pos us_per_day =? xl_datetime_num false ord 0 * 1)%Z = true.
+Proof.
+  apply Z.eqb_eq. unfold excel_date_number, xl_datetime_num. cbn [negb andb].
+  change (Z.of_N 0) with 0%Z.
+  set (D := Z.pos us_per_day). assert (HD : (0 < D)%Z) by (unfold D; lia).
+  set (days := (ord - ord_1899_12_31)%Z).
+  destruct (Z.ltb_spec 59 days); destruct (Z.ltb_spec (59 * D) (days * D + 0)); nia.
+Qed.
+
+Lemma datetime_serial_agrees ord :
+  ord <> ord_1900_01_01 ->
+  (excel_date_number false ord * Z.pos us_per_day =? xl_datetime_num true ord 0 * 1)%Z = true.
+Proof.
+  intros Hne. apply Z.eqb_eq. unfold excel_date_number, xl_datetime_num. cbn [negb andb].
+  change (Z.of_N 0) with 0%Z.
+  replace (ord =? ord_1900_01_01)%Z with false by (symmetry; apply Z.eqb_neq; auto).
+  set (D := Z.pos us_per_day). assert (HD : (0 < D)%Z) by (unfold D; lia).
+  set (days := (ord - ord_1899_12_31)%Z).
+  destruct (Z.ltb_spec 59 days); destruct (Z.ltb_spec (59 * D) (days * D + 0)); nia.
+Qed.
+
+Lemma label_ok_num_agrees b l :
+  label_ok_num b l = true -> cell_agrees (Some (numeric_str_val b l)) (xl_cell (label_of l)) = true.
+Proof.
+  destruct l as [|s|n dn|o|o u]; cbn [label_ok_num label_of numeric_str_val xl_cell]; intros H; try discriminate.
+  - apply str_safe_agrees; auto.
+  - cbn [cell_agrees]. apply Z.eqb_refl.
+  - apply negb_true_iff in H. subst. cbn [cell_agrees]. apply date_serial_agrees.
+  - apply andb_true_iff in H as [H H3]. apply andb_true_iff in H as [H1 H2].
+    apply negb_true_iff in H1, H3. subst. apply N.eqb_eq in H2. subst.
+    cbn [cell_agrees]. apply datetime_serial_agrees. apply Z.eqb_neq; auto.
+Qed.
+
+Fixpoint cat_all (p : pyval -> bool) (c : cat) : bool :=
+  match c with Cat l subs => p l && forallb (cat_all p) subs end.
+
+Lemma place_forall (P : cat -> Prop) : forall cs s, Forall P cs -> Forall (fun ic => P (snd ic)) (place s cs).
+Proof.
+  induction cs as [|c cs IH]; intros s H; cbn [place]; [constructor|].
+  inversion H; subst. constructor; auto.
+Qed.
+
+Lemma node_levels_all p cs :
+  forallb (cat_all p) cs = true ->
+  Forall (fun nodes => Forall (fun ic => p (cat_lab (snd ic)) = true) nodes) (node_levels cs).
+Proof.
+  intros H.
+  assert (Hq : Forall (fun nodes => Forall (fun ic => cat_all p (snd ic) = true) nodes) (node_levels cs)).
+  { apply node_levels_closed.
+    - intros l Hl. unfold next_level. induction l as [|[i c] l IH]; cbn [flat_map]; [constructor|].
+      inversion Hl as [|? ? Hc Hr]; subst. apply Forall_app. split; auto.
+      destruct c as [lab subs]. cbn [fst snd cat_subs cat_all] in *.
+      apply andb_true_iff in Hc as [_ Hs]. apply (place_forall (fun c => cat_all p c = true)).
+      apply Forall_forall. intros x Hx.
+      rewrite forallb_forall in Hs. auto.
+    - apply (place_forall (fun c => cat_all p c = true)). apply Forall_forall. rewrite forallb_forall in H. auto. }
+  eapply Forall_impl; [|exact Hq]. intros nodes Hn. eapply Forall_impl; [|exact Hn].
+  intros [i [lab subs]] Hc. cbn [snd cat_lab cat_all] in *. apply andb_true_iff in Hc. tauto.
+Qed.
+
+(** ** agreement of one reference with its cache *)
+
+Lemma forallb_nseq (f : N -> bool) : forall n s,
+  (forall k, (k < n)%nat -> f (s + N.of_nat k) = true) -> forallb f (nseq s n) = true.
+Proof.
+  induction n as [|n IH]; intros s H; cbn [nseq forallb]; auto.
+  apply andb_true_iff. split.
+  - specialize (H O ltac:(lia)). cbn [N.of_nat] in H. rewrite N.add_0_r in H. auto.
+  - apply IH. intros k Hk. specialize (H (S k) ltac:(lia)).
+    rewrite Nat2N.inj_succ in H. replace (s + 1 + N.of_nat k) with (s + N.succ (N.of_nat k)) by lia. auto.
+Qed.
+
+Lemma agree_col_intro sh c r1 r2 count ps :
+  r1 <= r2 -> r2 + 1 - r1 = count -> (forall p, In p ps -> fst p < count) ->
+  (forall k, (k < N.to_nat count)%nat ->
+     cell_agrees (lookup (N.of_nat k) ps) (get sh (r1 - 1 + N.of_nat k) (c - 1)) = true) ->
+  agree_col sh c r1 r2 count ps = true.
+Proof.
+  intros H1 H2 H3 H4. unfold agree_col.
+  repeat (apply andb_true_iff; split).
+  - lia.
+  - lia.
+  - apply forallb_forall. intros p Hp. specialize (H3 p Hp). lia.
+  - apply forallb_nseq. intros k Hk. rewrite lookup_pt_lookup. cbn [N.add].
+    specialize (H4 k Hk). exact H4.
+Qed.
+
+Lemma lookup_notin_none {A} k (l : list (N * A)) : (forall e, In e l -> fst e <> k) -> lookup k l = None.
+Proof.
+  induction l as [|[i v] l IH]; cbn [lookup In]; intros H; auto.
+  destruct (N.eqb_spec i k) as [->|Hne].
+  - exfalso. apply (H (k, v)); auto.
+  - apply IH. intros e He. apply H; auto.
+Qed.
+
+Definition val_pts_from (s : N) (vs : list val) : list (N * cval) :=
+  flat_map (fun iv : N * val => match snd iv with None => [] | Some (n, d) => [(fst iv, CNum n d)] end)
+           (enumerate_from s vs).
+
+Lemma val_cache_pts vs : pts (val_cache vs) = val_pts_from 0 vs.
+Proof. reflexivity. Qed.
+
+Lemma val_pts_bounds : forall vs s p, In p (val_pts_from s vs) -> s <= fst p < s + len_N vs.
+Proof.
+  unfold val_pts_from, len_N.
+  induction vs as [|v vs IH]; intros s p H; cbn [enumerate_from flat_map] in H; [destruct H|].
+  cbn [length]. rewrite Nat2N.inj_succ. apply in_app_or in H as [H|H].
+  - cbn [snd fst] in H. destruct v as [[n dn]|]; [|destruct H].
+    destruct H as [<-|[]]. cbn [fst]. lia.
+  - apply IH in H. lia.
+Qed.
+
+Lemma val_pts_lookup : forall vs s k,
+  lookup (s + N.of_nat k) (val_pts_from s vs) =
+    match nth_error vs k with Some (Some (n, dn)) => Some (CNum n dn) | _ => None end.
+Proof.
+  induction vs as [|v vs IH]; intros s k.
+  - destruct k; reflexivity.
+  - change (val_pts_from s (v :: vs))
+      with ((match v with None => [] | Some (n, dn) => [(s, CNum n dn)] end) ++ val_pts_from (s + 1) vs).
+    destruct k as [|k].
+    + cbn [N.of_nat nth_error]. rewrite N.add_0_r.
+      destruct v as [[n dn]|].
+      * cbn [app lookup]. rewrite N.eqb_refl. reflexivity.
+      * cbn [app]. apply lookup_notin_none. intros e He. apply val_pts_bounds in He. lia.
+    + cbn [nth_error]. rewrite Nat2N.inj_succ.
+      replace (s + N.succ (N.of_nat k)) with (s + 1 + N.of_nat k) by lia.
+      destruct v as [[n dn]|].
+      * cbn [app lookup]. replace (s =? s + 1 + N.of_nat k) with false by lia. apply IH.
+      * cbn [app]. apply IH.
+Qed.
+
+Lemma val_agrees (v : val) :
+  cell_agrees (match v with Some (n, dn) => Some (CNum n dn) | None => None end) (xl_cell (pv_of_val v)) = true.
+Proof. destruct v as [[n dn]|]; cbn; auto. apply Z.eqb_refl. Qed.
+
+Lemma agree_values sh c r1 r2 vs :
+  1 <= r1 -> 1 <= len_N vs -> r2 + 1 = r1 + len_N vs ->
+  (forall k v, nth_error vs k = Some v -> get sh (r1 - 1 + N.of_nat k) (c - 1) = xl_cell (pv_of_val v)) ->
+  agree_ref sh (mk_rng c r1 c r2) (val_cache vs) = true.
+Proof.
+  intros Hr1 Hl Hr2 Hg. unfold agree_ref. cbn [r_c1 r_c2 r_r1 r_r2]. rewrite N.eqb_refl. cbn [andb].
+  apply agree_col_intro.
+  - lia.
+  - cbn [val_cache pt_count]. lia.
+  - intros p Hp. rewrite val_cache_pts in Hp. apply val_pts_bounds in Hp. cbn [val_cache pt_count]. lia.
+  - intros k Hk. cbn [val_cache pt_count] in Hk. unfold len_N in Hk. rewrite Nat2N.id in Hk.
+    rewrite val_cache_pts.
+    replace (N.of_nat k) with (0 + N.of_nat k) at 1 by lia. rewrite val_pts_lookup.
+    destruct (nth_error vs k) as [v|] eqn:E; [|apply nth_error_None in E; lia].
+    rewrite (Hg k v E). apply val_agrees.
+Qed.
+
+Lemma agree_name_intro sh c r name :
+  1 <= r -> get sh (r - 1) (c - 1) = xl_write_str name -> str_safe name = true ->
+  agree_name sh (mk_rng c r c r) name = true.
+Proof.
+  intros Hr Hg Hs. unfold agree_name, agree_ref. cbn [r_c1 r_c2 r_r1 r_r2 pt_count pts].
+  rewrite N.eqb_refl. cbn [andb]. apply agree_col_intro.
+  - lia.
+  - lia.
+  - intros p [<-|[]]. cbn. lia.
+  - intros k Hk. assert (k = O) by lia. subst. cbn [N.of_nat lookup]. rewrite N.add_0_r.
+    cbn [N.eqb]. rewrite Hg. apply str_safe_agrees; auto.
+Qed.
+
+Lemma agree_col_level sh col0 leafs nodes (h : pyval -> cval) :
+  1 <= leafs -> spaced 0 nodes leafs ->
+  (forall ic, In ic nodes ->
+     cell_agrees (Some (h (cat_lab (snd ic)))) (xl_cell (label_of (cat_lab (snd ic)))) = true) ->
+  (forall k, k < leafs ->
+     get sh (k + 1) col0 = match lookup k (level_entries nodes) with Some lab => xl_cell lab | None => Empty end) ->
+  agree_col sh (col0 + 1) 2 (leafs + 1) leafs (map (fun ic => (fst ic, h (cat_lab (snd ic)))) nodes) = true.
+Proof.
+  intros Hl Hsp Hag Hg. apply agree_col_intro.
+  - lia.
+  - lia.
+  - intros p Hp. apply in_map_iff in Hp as [ic [<- Hic]]. cbn [fst].
+    apply (spaced_bounds _ _ _ Hsp ic Hic).
+  - intros k Hk.
+    replace (2 - 1 + N.of_nat k) with (N.of_nat k + 1) by lia.
+    replace (col0 + 1 - 1) with col0 by lia.
+    rewrite Hg by lia.
+    rewrite (lookup_map (fun c => h (cat_lab c)) (N.of_nat k) nodes).
+    unfold level_entries. rewrite (lookup_map (fun c => label_of (cat_lab c)) (N.of_nat k) nodes).
+    destruct (lookup (N.of_nat k) nodes) as [c|] eqn:E; cbn [option_map]; [|reflexivity].
+    apply lookup_in in E. apply (Hag _ E).
+Qed.
+
+Lemma agree_levels_intro sh r count : forall cls i,
+  (forall j cl, nth_error cls j = Some cl ->
+     r_c1 r + (i + N.of_nat j) <= r_c2 r /\
+     agree_col sh (r_c2 r - (i + N.of_nat j)) (r_r1 r) (r_r2 r) count cl = true) ->
+  agree_levels sh r count i cls = true.
+Proof.
+  induction cls as [|cl cls IH]; intros i H; cbn [agree_levels]; auto.
+  destruct (H O cl eq_refl) as [H1 H2]. cbn [N.of_nat] in H1, H2. rewrite N.add_0_r in H1, H2.
+  apply andb_true_iff; split; [apply andb_true_iff; split; [lia|exact H2]|].
+  apply IH. intros j cl' Hj. specialize (H (S j) cl' Hj). rewrite Nat2N.inj_succ in H.
+  replace (i + 1 + N.of_nat j) with (i + N.succ (N.of_nat j)) by lia. exact H.
+Qed.
+
+(** ** the category cache against the category columns *)
+
+Lemma enumerate_place_leaves {B} (g : cat -> B) : forall cs s,
+  Forall (fun c => cat_subs c = []) cs ->
+  enumerate_from s (map g cs) = map (fun ic => (fst ic, g (snd ic))) (place s cs).
+Proof.
+  induction cs as [|c cs IH]; intros s H; cbn [map enumerate_from place]; auto.
+  inversion H as [|? ? Hc Hr]; subst. destruct c as [lab subs]. cbn [cat_subs] in Hc. subst.
+  cbn [fst snd leaf_count]. f_equal. apply IH; auto.
+Qed.
+
+Lemma depth1_leaves cs : forest_depth cs = Ok 1 -> Forall (fun c => cat_subs c = []) cs.
+Proof.
+  intros H. apply forest_depth_spec in H as [[-> _]|[_ Hf]]; [constructor|].
+  eapply Forall_impl; [|exact Hf]. intros [lab [|s0 rest]] Hc; [reflexivity|].
+  apply cat_depth_node in Hc as [d0 [Hd Hs]]. inversion Hs as [|? ? Hs0 _]; subst.
+  apply cat_depth_pos in Hs0. lia.
+Qed.
+
+Lemma node_levels_depth1 cs : forest_depth cs = Ok 1 -> node_levels cs = [place 0 cs].
+Proof.
+  intros H. unfold node_levels. cbn [node_levels_fuel].
+  rewrite all_depth_1_next; [reflexivity|].
+  apply forest_depth_spec in H as [[-> _]|[_ Hf]]; [constructor|]. apply all_depth_place; auto.
+Qed.
+
+Section CatAgree.
+  Variables (d : catdata) (depth : N) (sh : sheet).
+  Hypothesis Hdepth : forest_depth (cd_cats d) = Ok depth.
+  Hypothesis Hsh : cat_sheet d = Ok sh.
+  Hypothesis Hd1 : 1 <= depth.
+  Hypothesis Hdmax : depth <= xl_colmax.
+  Hypothesis Hrows : forest_leaf_count (cd_cats d) < xl_rowmax.
+
+  Lemma agree_cat_nodes kind (h : pyval -> cval) :
+    (forall nodes, In nodes (node_levels (cd_cats d)) -> forall ic, In ic nodes ->
+       cell_agrees (Some (h (cat_lab (snd ic)))) (xl_cell (label_of (cat_lab (snd ic)))) = true) ->
+    agree_cat sh (categories_rng depth (forest_leaf_count (cd_cats d)))
+      (mk_cat_cache kind (forest_leaf_count (cd_cats d))
+         (map (fun nodes => map (fun ic => (fst ic, h (cat_lab (snd ic)))) nodes) (node_levels (cd_cats d)))) = true.
+  Proof.
+    intros Hag. set (cs := cd_cats d) in *. set (leafs := forest_leaf_count cs) in *.
+    assert (Hlen : length (node_levels cs) = N.to_nat depth) by (apply node_levels_length; auto).
+    assert (Hleafs : 1 <= leafs) by (eapply forest_depth_pos_nonempty; eauto).
+    unfold agree_cat, categories_rng. cbn [r_c1 r_c2 r_r1 r_r2 cc_levels cc_count].
+    apply andb_true_iff. split.
+    - unfold len_N. rewrite map_length, Hlen. lia.
+    - apply agree_levels_intro. cbn [r_c1 r_c2 r_r1 r_r2]. intros j cl Hj.
+      rewrite nth_error_map in Hj. destruct (nth_error (node_levels cs) j) as [nodes|] eqn:En; [|discriminate].
+      cbn [option_map] in Hj. inversion Hj; subst cl. clear Hj.
+      assert (Hjl : (j < N.to_nat depth)%nat).
+      { rewrite <- Hlen. apply nth_error_Some. congruence. }
+      split; [lia|].
+      replace (depth - (0 + N.of_nat j)) with (depth - N.of_nat j - 1 + 1) by lia.
+      apply agree_col_level; auto.
+      + pose proof (node_levels_spaced cs) as Hs. rewrite Forall_forall in Hs.
+        apply Hs. eapply nth_error_In; eauto.
+      + apply Hag. eapply nth_error_In; eauto.
+      + intros k Hk. apply (cat_cell_level d depth sh Hdepth Hsh); auto.
+        * fold cs. rewrite levels_nodes, nth_error_map, En. reflexivity.
+        * unfold in_dims. apply andb_true_iff. unfold xl_rowmax, xl_colmax in *. split; lia.
+  Qed.
+End CatAgree.
+
+Definition numeric_cats (cs : list cat) (depth : N) : bool :=
+  (depth =? 1) && match cs with c :: _ => is_numeric_label (cat_lab c) | [] => false end.
+
+Definition cat_labels_ok (b : bool) (cs : list cat) : bool :=
+  match forest_depth cs with
+  | Ok depth =>
+      if numeric_cats cs depth then forallb (cat_all (label_ok_num b)) cs
+      else forallb (cat_all label_ok_str) cs
+  | Err _ => false
+  end.
+
+Lemma agree_cat_cache b d depth sh cc :
+  forest_depth (cd_cats d) = Ok depth -> cat_sheet d = Ok sh ->
+  1 <= depth -> depth <= xl_colmax -> forest_leaf_count (cd_cats d) < xl_rowmax ->
+  cat_labels_ok b (cd_cats d) = true ->
+  cat_cache_of b (cd_cats d) = Ok cc ->
+  agree_cat sh (categories_rng depth (forest_leaf_count (cd_cats d))) cc = true.
+Proof.
+  intros Hdepth Hsh Hd1 Hdm Hrows Hok Hcc.
+  unfold cat_labels_ok in Hok. rewrite Hdepth in Hok.
+  unfold cat_cache_of in Hcc. rewrite Hdepth in Hcc. cbn [bind] in Hcc.
+  fold (numeric_cats (cd_cats d) depth) in Hcc.
+  destruct (numeric_cats (cd_cats d) depth) eqn:En.
+  - (* numeric cache *)
+    assert (depth = 1) by (unfold numeric_cats in En; apply andb_true_iff in En as [E _]; lia). subst depth.
+    inversion Hcc; subst cc. clear Hcc.
+    rewrite (enumerate_place_leaves (fun c => numeric_str_val b (cat_lab c))) by (apply depth1_leaves; auto).
+    pose proof (agree_cat_nodes d 1 sh Hdepth Hsh Hd1 Hdm Hrows KNum (numeric_str_val b)) as H.
+    rewrite (node_levels_depth1 _ Hdepth) in H. cbn [map] in H. apply H.
+    intros nodes [<-|[]] ic Hic. apply label_ok_num_agrees.
+    pose proof (node_levels_all _ _ Hok) as Ha. rewrite (node_levels_depth1 _ Hdepth) in Ha.
+    inversion Ha as [|? ? Hn _]; subst. rewrite Forall_forall in Hn. apply Hn; auto.
+  - destruct (N.eqb_spec depth 1) as [->|Hne1].
+    + (* string cache *)
+      inversion Hcc; subst cc. clear Hcc.
+      rewrite (enumerate_place_leaves (fun c => label_str_val (cat_lab c))) by (apply depth1_leaves; auto).
+      pose proof (agree_cat_nodes d 1 sh Hdepth Hsh Hd1 Hdm Hrows KStr label_str_val) as H.
+      rewrite (node_levels_depth1 _ Hdepth) in H. cbn [map] in H. apply H.
+      intros nodes [<-|[]] ic Hic. apply label_ok_str_agrees.
+      pose proof (node_levels_all _ _ Hok) as Ha. rewrite (node_levels_depth1 _ Hdepth) in Ha.
+      inversion Ha as [|? ? Hn _]; subst. rewrite Forall_forall in Hn. apply Hn; auto.
+    + (* multi-level cache *)
+      replace (depth =? 0) with false in Hcc by lia.
+      inversion Hcc; subst cc. clear Hcc.
+      rewrite levels_nodes, map_map.
+      pose proof (agree_cat_nodes d depth sh Hdepth Hsh Hd1 Hdm Hrows KMulti (fun l => label_str_val (label_of l))) as H.
+      erewrite map_ext; [apply H|].
+      * intros nodes Hin ic Hic. rewrite label_str_val_label_of. apply label_ok_str_agrees.
+        pose proof (node_levels_all _ _ Hok) as Ha. rewrite Forall_forall in Ha.
+        specialize (Ha nodes Hin). rewrite Forall_forall in Ha. apply Ha; auto.
+      * intros nodes. unfold level_entries. rewrite map_map. reflexivity.
+Qed.
+
+(** ** the series entries of the XML *)
+
+Lemma cat_sers_inv b cs depth : forall ss idx es,
+  cat_sers b cs depth idx ss = Ok es ->
+  forall e, In e es -> exists j s cc,
+    nth_error ss j = Some s /\ cat_cache_of b cs = Ok cc /\ depth <> 0 /\
+    1 <= series_col_number depth (idx + N.of_nat j) <= 16384 /\
+    cs_name_rng e = series_name_rng depth (idx + N.of_nat j) /\
+    cs_name_ref e = render_cell (column_letters (series_col_number depth (idx + N.of_nat j))) 1 /\
+    cs_name e = name_of (s_name s) /\
+    cs_cat_rng e = categories_rng depth (forest_leaf_count cs) /\
+    cs_cat_ref e = render_range [65] 2 [65 + depth - 1] (forest_leaf_count cs + 1) /\
+    cs_cat e = cc /\
+    cs_val_rng e = values_rng depth (idx + N.of_nat j) (len_N (s_vals s)) /\
+    cs_val_ref e = render_range (column_letters (series_col_number depth (idx + N.of_nat j))) 2
+                     (column_letters (series_col_number depth (idx + N.of_nat j))) (len_N (s_vals s) + 1) /\
+    cs_val e = val_cache (s_vals s).
+Proof.
+  induction ss as [|s ss IH]; intros idx es H e He; cbn [cat_sers] in H.
+  - inversion H; subst. destruct He.
+  - unfold series_name_ref_text, values_ref_text, categories_ref_text in H.
+    destruct (column_reference (series_col_number depth idx)) as [col|] eqn:Ec; cbn [bind] in H; [|discriminate].
+    apply column_reference_ok in Ec as [Hcol ->].
+    destruct (N.eqb_spec depth 0) as [|Hd0]; cbn [bind] in H; [discriminate|].
+    destruct (cat_cache_of b cs) as [cc|] eqn:Ecc; cbn [bind] in H; [|discriminate].
+    destruct (cat_sers b cs depth (idx + 1) ss) as [tl|] eqn:Et; cbn [bind] in H; [|discriminate].
+    inversion H; subst es. clear H. destruct He as [<-|He].
+    + exists O, s, cc. cbn [N.of_nat nth_error]. rewrite !N.add_0_r.
+      cbn [cs_name_rng cs_name_ref cs_name cs_cat_rng cs_cat_ref cs_cat cs_val_rng cs_val_ref cs_val].
+      repeat split; auto; lia.
+    + destruct (IH _ _ Et e He) as [j [s' [cc' Hj]]].
+      exists (S j), s', cc'. cbn [nth_error]. rewrite Nat2N.inj_succ.
+      replace (idx + N.succ (N.of_nat j)) with (idx + 1 + N.of_nat j) by lia. exact Hj.
+Qed.
+
+(** ** C08_cat_chart *)
+
+Lemma categories_text_render depth leafs :
+  1 <= depth <= 26 ->
+  render_range [65] 2 [65 + depth - 1] (leafs + 1) = render_rng (categories_rng depth leafs).
+Proof.
+  intros H. unfold render_rng, categories_rng. cbn [r_c1 r_c2 r_r1 r_r2].
+  rewrite (column_letters_single depth) by lia. rewrite (column_letters_single 1) by lia. reflexivity.
+Qed.
+
+Definition cat_depth_ok (cs : list cat) : bool :=
+  match forest_depth cs with Ok depth => depth <=? 26 | Err _ => false end.
+
+Definition series_ok (s : series) : bool :=
+  str_safe (name_of (s_name s)) && (1 <=? len_N (s_vals s)) && (len_N (s_vals s) <? xl_rowmax).
+
+Definition cat_domain (b : bool) (d : catdata) : bool :=
+  cat_labels_ok b (cd_cats d) && forallb series_ok (cd_series d)
+  && (forest_leaf_count (cd_cats d) <? xl_rowmax) && cat_depth_ok (cd_cats d).
+
+Lemma cat_chart_agrees b d es sh :
+  cat_domain b d = true -> cat_xml b d = Ok es -> cat_sheet d = Ok sh ->
+  forallb (agree_cat_ser sh) es = true.
+Proof.
+  intros Hdom Hxml Hsh. unfold cat_domain in Hdom.
+  apply andb_true_iff in Hdom as [Hdom Hd26].
+  apply andb_true_iff in Hdom as [Hdom Hrows]. apply andb_true_iff in Hdom as [Hlab Hser].
+  unfold cat_xml in Hxml. destruct (forest_depth (cd_cats d)) as [depth|] eqn:Hdepth; cbn [bind] in Hxml; [|discriminate].
+  apply forallb_forall. intros e He.
+  destruct (cat_sers_inv _ _ _ _ _ _ Hxml e He) as
+    [j [s [cc [Hj [Hcc [Hd0 [Hcol [E1 [T1 [E2 [E3 [T2 [E4 [E5 [T3 E6]]]]]]]]]]]]]]].
+  unfold cat_depth_ok in Hd26. rewrite Hdepth in Hd26.
+  rewrite forallb_forall in Hser. specialize (Hser s (nth_error_In _ _ Hj)).
+  unfold series_ok in Hser. apply andb_true_iff in Hser as [Hser Hlen2]. apply andb_true_iff in Hser as [Hname Hlen1].
+  unfold series_col_number in Hcol.
+  assert (Hrow : forest_leaf_count (cd_cats d) < xl_rowmax) by lia.
+  unfold agree_cat_ser. rewrite E1, E2, E3, E4, E5, E6, T1, T2, T3.
+  rewrite (categories_text_render depth) by lia.
+  unfold render_cell_rng, render_rng.
+  unfold series_name_rng, values_rng, series_col_number. cbn [r_c1 r_c2 r_r1 r_r2].
+  rewrite !str_eqb_refl, !andb_true_r.
+  replace (1 + depth + (0 + N.of_nat j)) with (depth + N.of_nat j + 1) by lia.
+  apply andb_true_iff; split; [apply andb_true_iff; split|].
+  - apply agree_name_intro; auto; [lia|].
+    replace (1 - 1) with 0 by lia. replace (depth + N.of_nat j + 1 - 1) with (depth + N.of_nat j) by lia.
+    apply (cat_cell_name d depth sh Hdepth Hsh); auto.
+    unfold in_dims, xl_rowmax, xl_colmax. apply andb_true_iff; split; lia.
+  - apply (agree_cat_cache b d depth sh cc); auto; unfold xl_colmax; lia.
+  - apply agree_values; try lia.
+    intros k v Hk.
+    replace (2 - 1 + N.of_nat k) with (1 + N.of_nat k) by lia.
+    replace (depth + N.of_nat j + 1 - 1) with (depth + N.of_nat j) by lia.
+    apply (cat_cell_value d depth sh Hdepth Hsh j s k v); auto.
+    assert (Hkl : (k < length (s_vals s))%nat) by (apply nth_error_Some; congruence).
+    unfold in_dims, xl_rowmax, xl_colmax, len_N in *. apply andb_true_iff; split; lia.
+Qed.
+
+(** * 5. XY and bubble charts *)
+
+Lemma sumN_app a b : sumN (a ++ b) = sumN a + sumN b.
+Proof. unfold sumN. induction a; cbn [app fold_right]; lia. Qed.
+
+Lemma firstn_succ_nth {A} : forall (l : list A) k x, nth_error l k = Some x -> firstn (S k) l = firstn k l ++ [x].
+Proof.
+  induction l as [|y l IH]; intros k x H; [destruct k; discriminate|].
+  destruct k as [|k]; cbn in H.
+  - inversion H; subst. reflexivity.
+  - change (firstn (S (S k)) (y :: l)) with (y :: firstn (S k) l).
+    rewrite (IH k x H). reflexivity.
+Qed.
+
+Lemma firstn_succ_none {A} : forall (l : list A) k, nth_error l k = None -> firstn (S k) l = firstn k l.
+Proof.
+  intros l k H. apply nth_error_None in H. transitivity l; [apply firstn_all2; lia | symmetry; apply firstn_all2; lia].
+Qed.
+
+Lemma row_offset_succ all k s :
+  nth_error all k = Some s -> row_offset all (S k) = row_offset all k + xy_len s + 2.
+Proof.
+  intros H. unfold row_offset. rewrite (firstn_succ_nth _ _ _ H), map_app, sumN_app.
+  cbn [map sumN fold_right]. rewrite Nat2N.inj_succ. lia.
+Qed.
+
+Lemma row_offset_step all k : row_offset all k <= row_offset all (S k).
+Proof.
+  destruct (nth_error all k) as [s|] eqn:E.
+  - rewrite (row_offset_succ _ _ _ E). lia.
+  - unfold row_offset. rewrite (firstn_succ_none _ _ E), Nat2N.inj_succ. lia.
+Qed.
+
+Lemma row_offset_mono all j sj : forall k, (j < k)%nat -> nth_error all j = Some sj ->
+  row_offset all j + xy_len sj + 2 <= row_offset all k.
+Proof.
+  induction k as [|k IH]; intros Hjk Hj; [lia|].
+  destruct (Nat.eq_dec j k) as [->|Hne].
+  - rewrite (row_offset_succ _ _ _ Hj). lia.
+  - specialize (IH ltac:(lia) Hj). pose proof (row_offset_step all k). lia.
+Qed.
+
+Definition untouched_rows (sh : sheet) (r0 : N) : Prop := forall r c, r0 <= r -> get sh r c = Empty.
+
+Lemma get_write_table_before b sh off s r c : r < off -> get (write_table b sh off s) r c = get sh r c.
+Proof.
+  intros H. unfold write_table. destruct b.
+  - rewrite get_write_column_miss by lia. rewrite get_xl_write_other by lia.
+    rewrite get_write_column_miss by lia. rewrite get_xl_write_other by lia.
+    apply get_write_column_miss. lia.
+  - rewrite get_write_column_miss by lia. rewrite get_xl_write_other by lia.
+    apply get_write_column_miss. lia.
+Qed.
+
+Lemma xy_lens s : len_N (map pv_of_val (xy_x s)) = xy_len s /\ len_N (map pv_of_val (xy_y s)) = xy_len s
+  /\ len_N (map pv_of_val (xy_size s)) = xy_len s.
+Proof. unfold len_N, xy_x, xy_y, xy_size, xy_len, len_N. rewrite !map_length. auto. Qed.
+
+Lemma get_write_table_beyond b sh off s r c : off + xy_len s < r -> get (write_table b sh off s) r c = get sh r c.
+Proof.
+  intros H. destruct (xy_lens s) as [Hx [Hy Hz]]. unfold write_table. destruct b.
+  - rewrite get_write_column_miss by lia. rewrite get_xl_write_other by lia.
+    rewrite get_write_column_miss by lia. rewrite get_xl_write_other by lia.
+    apply get_write_column_miss. lia.
+  - rewrite get_write_column_miss by lia. rewrite get_xl_write_other by lia.
+    apply get_write_column_miss. lia.
+Qed.
+
+(** what the table of one series holds *)
+Definition table_facts (b : bool) (sh : sheet) (off : N) (s : xyseries) : Prop :=
+  (in_dims off 1 = true -> get sh off 1 = xl_write_str (name_of (xy_name s))) /\
+  (forall i v, nth_error (xy_x s) i = Some v -> in_dims (off + 1 + N.of_nat i) 0 = true ->
+     get sh (off + 1 + N.of_nat i) 0 = xl_cell (pv_of_val v)) /\
+  (forall i v, nth_error (xy_y s) i = Some v -> in_dims (off + 1 + N.of_nat i) 1 = true ->
+     get sh (off + 1 + N.of_nat i) 1 = xl_cell (pv_of_val v)) /\
+  (b = true -> forall i v, nth_error (xy_size s) i = Some v -> in_dims (off + 1 + N.of_nat i) 2 = true ->
+     get sh (off + 1 + N.of_nat i) 2 = xl_cell (pv_of_val v)).
+
+Lemma write_table_facts b sh off s :
+  untouched_rows sh off -> table_facts b (write_table b sh off s) off s.
+Proof.
+  intros Hu. unfold table_facts, write_table. repeat split.
+  - intros Hd. destruct b.
+    + rewrite get_write_column_miss by lia. rewrite get_xl_write_other by lia.
+      rewrite get_write_column_miss by lia.
+      rewrite get_xl_write_nofmt; auto. rewrite get_write_column_miss by lia. apply Hu. lia.
+    + rewrite get_write_column_miss by lia.
+      rewrite get_xl_write_nofmt; auto. rewrite get_write_column_miss by lia. apply Hu. lia.
+  - intros i v Hi Hd.
+    assert (Hm : nth_error (map pv_of_val (xy_x s)) i = Some (pv_of_val v)) by (rewrite nth_error_map, Hi; auto).
+    destruct b.
+    + rewrite get_write_column_miss by lia. rewrite get_xl_write_other by lia.
+      rewrite get_write_column_miss by lia. rewrite get_xl_write_other by lia.
+      apply get_write_column_hit; auto.
+    + rewrite get_write_column_miss by lia. rewrite get_xl_write_other by lia.
+      apply get_write_column_hit; auto.
+  - intros i v Hi Hd.
+    assert (Hm : nth_error (map pv_of_val (xy_y s)) i = Some (pv_of_val v)) by (rewrite nth_error_map, Hi; auto).
+    destruct b.
+    + rewrite get_write_column_miss by lia. rewrite get_xl_write_other by lia.
+      apply get_write_column_hit; auto.
+    + apply get_write_column_hit; auto.
+  - intros Hb i v Hi Hd. subst b.
+    assert (Hm : nth_error (map pv_of_val (xy_size s)) i = Some (pv_of_val v)) by (rewrite nth_error_map, Hi; auto).
+    apply get_write_column_hit; auto.
+Qed.
+
+Lemma table_facts_preserved b sh sh' off s :
+  (forall r c, r <= off + xy_len s -> get sh' r c = get sh r c) ->
+  table_facts b sh off s -> table_facts b sh' off s.
+Proof.
+  intros Hsame [F1 [F2 [F3 F4]]].
+  assert (Hlx : forall i v, nth_error (xy_x s) i = Some v -> N.of_nat i < xy_len s).
+  { intros i v Hi. assert (Hl : (i < length (xy_x s))%nat) by (apply nth_error_Some; congruence).
+    unfold xy_x in Hl. rewrite map_length in Hl. unfold xy_len, len_N. lia. }
+  assert (Hly : forall i v, nth_error (xy_y s) i = Some v -> N.of_nat i < xy_len s).
+  { intros i v Hi. assert (Hl : (i < length (xy_y s))%nat) by (apply nth_error_Some; congruence).
+    unfold xy_y in Hl. rewrite map_length in Hl. unfold xy_len, len_N. lia. }
+  assert (Hlz : forall i v, nth_error (xy_size s) i = Some v -> N.of_nat i < xy_len s).
+  { intros i v Hi. assert (Hl : (i < length (xy_size s))%nat) by (apply nth_error_Some; congruence).
+    unfold xy_size in Hl. rewrite map_length in Hl. unfold xy_len, len_N. lia. }
+  unfold table_facts. repeat split.
+  - intros Hd. rewrite Hsame by lia. auto.
+  - intros i v Hi Hd. rewrite Hsame by (specialize (Hlx i v Hi); lia). auto.
+  - intros i v Hi Hd. rewrite Hsame by (specialize (Hly i v Hi); lia). auto.
+  - intros Hb i v Hi Hd. rewrite Hsame by (specialize (Hlz i v Hi); lia). auto.
+Qed.
+
+Lemma xy_loop_before b all : forall rest k sh r c,
+  r < row_offset all k -> get (xy_loop b all k rest sh) r c = get sh r c.
+Proof.
+  induction rest as [|s rest IH]; intros k sh r c H; cbn [xy_loop]; auto.
+  rewrite IH by (pose proof (row_offset_step all k); lia).
+  apply get_write_table_before; auto.
+Qed.
+
+Lemma xy_loop_facts b all : forall rest k sh j s,
+  (forall i s', nth_error rest i = Some s' -> nth_error all (k + i) = Some s') ->
+  untouched_rows sh (row_offset all k) ->
+  nth_error rest j = Some s ->
+  table_facts b (xy_loop b all k rest sh) (row_offset all (k + j)) s.
+Proof.
+  induction rest as [|s0 rest IH]; intros k sh j s Hall Hu Hj; [destruct j; discriminate|].
+  cbn [xy_loop].
+  assert (H0 : nth_error all k = Some s0).
+  { specialize (Hall O s0 eq_refl). rewrite Nat.add_0_r in Hall. auto. }
+  destruct j as [|j].
+  - cbn in Hj. inversion Hj; subst s0. rewrite Nat.add_0_r.
+    apply (table_facts_preserved b (write_table b sh (row_offset all k) s)); [|apply write_table_facts; auto].
+    intros r c Hr. apply xy_loop_before. rewrite (row_offset_succ _ _ _ H0). lia.
+  - cbn [nth_error] in Hj. replace (k + S j)%nat with (S k + j)%nat by lia.
+    apply IH; auto.
+    + intros i s' Hi. replace (S k + i)%nat with (k + S i)%nat by lia. apply Hall. auto.
+    + intros r c Hr. rewrite (row_offset_succ _ _ _ H0) in Hr.
+      rewrite get_write_table_beyond by lia. apply Hu. lia.
+Qed.
+
+Lemma xy_sheet_facts b all j s :
+  nth_error all j = Some s -> table_facts b (xy_sheet b all) (row_offset all j) s.
+Proof.
+  intros Hj. unfold xy_sheet. replace j with (0 + j)%nat by lia.
+  apply xy_loop_facts; auto. intros r c _. reflexivity.
+Qed.
+
+Lemma xy_sers_inv b all : forall rest k e,
+  In e (xy_sers b all k rest) -> exists j s, nth_error rest j = Some s /\ e = xy_ser_of b all (k + j) s.
+Proof.
+  induction rest as [|s rest IH]; intros k e H; cbn [xy_sers] in H; [destruct H|].
+  destruct H as [<-|H].
+  - exists O, s. rewrite Nat.add_0_r. auto.
+  - destruct (IH _ _ H) as [j [s' [Hj ->]]]. exists (S j), s'. cbn [nth_error].
+    replace (k + S j)%nat with (S k + j)%nat by lia. auto.
+Qed.
+
+Lemma xy_ref_text_render col off len :
+  1 <= col <= 26 -> xy_col_ref_text col off len = render_rng (xy_col_rng col off len).
+Proof.
+  intros H. unfold xy_col_ref_text, render_rng, xy_col_rng. cbn [r_c1 r_c2 r_r1 r_r2].
+  rewrite (column_letters_single col) by lia. replace (65 + col - 1) with (64 + col) by lia. reflexivity.
+Qed.
+
+Lemma xy_name_ref_text_render off :
+  xy_name_ref_text off = render_cell (column_letters (r_c1 (xy_name_rng off))) (r_r1 (xy_name_rng off)).
+Proof. reflexivity. Qed.
+
+Definition xy_series_ok (s : xyseries) : bool := str_safe (name_of (xy_name s)) && (1 <=? xy_len s).
+Definition xy_domain (all : list xyseries) : bool :=
+  forallb xy_series_ok all && (row_offset all (length all) <=? xl_rowmax).
+
+Lemma xy_chart_agrees b all :
+  xy_domain all = true -> forallb (agree_xy_ser (xy_sheet b all)) (xy_xml b all) = true.
+Proof.
+  intros Hdom. unfold xy_domain in Hdom. apply andb_true_iff in Hdom as [Hser Hrows].
+  apply forallb_forall. intros e He. unfold xy_xml in He.
+  destruct (xy_sers_inv _ _ _ _ _ He) as [j [s [Hj ->]]]. cbn [Nat.add] in *.
+  rewrite forallb_forall in Hser. specialize (Hser s (nth_error_In _ _ Hj)).
+  unfold xy_series_ok in Hser. apply andb_true_iff in Hser as [Hname Hlen].
+  destruct (xy_sheet_facts b all j s Hj) as [F1 [F2 [F3 F4]]].
+  set (off := row_offset all j) in *. set (sh := xy_sheet b all) in *.
+  assert (Hjl : (j < length all)%nat) by (apply nth_error_Some; congruence).
+  assert (Hend : off + xy_len s + 2 <= xl_rowmax).
+  { pose proof (row_offset_mono all j s (length all) Hjl Hj). unfold off. lia. }
+  assert (Hdim : forall i c, N.of_nat i < xy_len s -> c < 3 -> in_dims (off + 1 + N.of_nat i) c = true).
+  { intros i c Hi Hc. unfold in_dims, xl_colmax. apply andb_true_iff; split; lia. }
+  assert (Hlx : forall l, length l = length (xy_pts s) -> forall i (v : val), nth_error l i = Some v -> N.of_nat i < xy_len s).
+  { intros l Hl i v Hi. assert ((i < length l)%nat) by (apply nth_error_Some; congruence).
+    unfold xy_len, len_N. lia. }
+  unfold agree_xy_ser, xy_ser_of.
+  cbn [xs_name_rng xs_name xs_x_rng xs_x xs_y_rng xs_y xs_size xs_name_ref xs_x_ref xs_y_ref].
+  fold off. rewrite !xy_ref_text_render by lia. rewrite xy_name_ref_text_render.
+  unfold render_cell_rng. rewrite !str_eqb_refl, !andb_true_r.
+  unfold xy_name_rng, xy_col_rng.
+  apply andb_true_iff; split; [apply andb_true_iff; split; [apply andb_true_iff; split|]|].
+  - apply agree_name_intro; auto; [lia|].
+    replace (off + 1 - 1) with off by lia. replace (2 - 1) with 1 by lia. apply F1.
+    unfold in_dims, xl_colmax. apply andb_true_iff; split; lia.
+  - apply agree_values; try lia.
+    + unfold xy_x, len_N. rewrite map_length. fold (len_N (xy_pts s)). fold (xy_len s). lia.
+    + unfold xy_x, len_N. rewrite map_length. fold (len_N (xy_pts s)). fold (xy_len s). lia.
+    + intros k v Hk. replace (off + 2 - 1 + N.of_nat k) with (off + 1 + N.of_nat k) by lia.
+      replace (1 - 1) with 0 by lia. apply F2; auto. apply Hdim; [|lia].
+      apply (Hlx (xy_x s)) with (v := v); auto. unfold xy_x. apply map_length.
+  - apply agree_values; try lia.
+    + unfold xy_y, len_N. rewrite map_length. fold (len_N (xy_pts s)). fold (xy_len s). lia.
+    + unfold xy_y, len_N. rewrite map_length. fold (len_N (xy_pts s)). fold (xy_len s). lia.
+    + intros k v Hk. replace (off + 2 - 1 + N.of_nat k) with (off + 1 + N.of_nat k) by lia.
+      replace (2 - 1) with 1 by lia. apply F3; auto. apply Hdim; [|lia].
+      apply (Hlx (xy_y s)) with (v := v); auto. unfold xy_y. apply map_length.
+  - destruct b; [|reflexivity]. rewrite str_eqb_refl, andb_true_r.
+    apply agree_values; try lia.
+    + unfold xy_size, len_N. rewrite map_length. fold (len_N (xy_pts s)). fold (xy_len s). lia.
+    + unfold xy_size, len_N. rewrite map_length. fold (len_N (xy_pts s)). fold (xy_len s). lia.
+    + intros k v Hk. replace (off + 2 - 1 + N.of_nat k) with (off + 1 + N.of_nat k) by lia.
+      replace (3 - 1) with 2 by lia. apply F4; auto. apply Hdim; [|lia].
+      apply (Hlx (xy_size s)) with (v := v); auto. unfold xy_size. apply map_length.
+Qed.
+
+(** tables of different series do not overlap: the last row a series refers to lies
+    before the first row a later series refers to, with a spacer row between *)
+Lemma xy_tables_disjoint b all j k sj sk :
+  (j < k)%nat -> nth_error all j = Some sj -> nth_error all k = Some sk ->
+  let ej := xy_ser_of b all j sj in
+  let ek := xy_ser_of b all k sk in
+  r_r1 (xs_name_rng ej) <= r_r1 (xs_x_rng ej) /\
+  r_r1 (xs_x_rng ej) = r_r1 (xs_y_rng ej) /\ r_r2 (xs_x_rng ej) = r_r2 (xs_y_rng ej) /\
+  r_r2 (xs_y_rng ej) + 1 < r_r1 (xs_name_rng ek) /\
+  r_r1 (xs_name_rng ej) = row_offset all j + 1 /\
+  r_r2 (xs_y_rng ej) = row_offset all j + 1 + xy_len sj.
+Proof.
+  intros Hjk Hj Hk. cbn. pose proof (row_offset_mono all j sj k Hjk Hj). lia.
+Qed.
+
+(** * 6. The statements by reference, texts of the references, histories *)
+
+(** cells addressed through the structured references of series j *)
+Lemma cat_cells_by_ref d depth sh j s :
+  forest_depth (cd_cats d) = Ok depth -> cat_sheet d = Ok sh ->
+  nth_error (cd_series d) j = Some s ->
+  series_col_number depth (N.of_nat j) <= xl_colmax ->
+  let nr := series_name_rng depth (N.of_nat j) in
+  let vr := values_rng depth (N.of_nat j) (len_N (s_vals s)) in
+  get sh (r_r1 nr - 1) (r_c1 nr - 1) = xl_write_str (name_of (s_name s)) /\
+  r_c1 vr = r_c2 vr /\ r_c1 vr = r_c1 nr /\
+  r_r2 vr + 1 - r_r1 vr = pt_count (val_cache (s_vals s)) /\
+  (forall k v, nth_error (s_vals s) k = Some v -> r_r1 vr - 1 + N.of_nat k < xl_rowmax ->
+     get sh (r_r1 vr - 1 + N.of_nat k) (r_c1 vr - 1) = xl_cell (pv_of_val v)).
+Proof.
+  intros Hdepth Hsh Hj Hcol. unfold series_col_number, xl_colmax in Hcol.
+  cbn [series_name_rng values_rng r_r1 r_r2 r_c1 r_c2 val_cache pt_count]. unfold series_col_number.
+  replace (1 + depth + N.of_nat j - 1) with (depth + N.of_nat j) by lia.
+  repeat split.
+  - replace (1 - 1) with 0 by lia. apply (cat_cell_name d depth sh Hdepth Hsh); auto.
+    unfold in_dims, xl_rowmax, xl_colmax. apply andb_true_iff; split; lia.
+  - lia.
+  - intros k v Hk Hr. replace (2 - 1 + N.of_nat k) with (1 + N.of_nat k) in * by lia.
+    apply (cat_cell_value d depth sh Hdepth Hsh j s k v); auto.
+    unfold in_dims, xl_colmax. apply andb_true_iff; split; lia.
+Qed.
+
+(** level i of the hierarchy through the categories reference: column c2 - i, the
+    row of point idx k is r1 + k *)
+Lemma cat_levels_by_ref d depth sh i l k :
+  forest_depth (cd_cats d) = Ok depth -> cat_sheet d = Ok sh -> 1 <= depth -> depth <= xl_colmax ->
+  nth_error (levels (cd_cats d)) i = Some l ->
+  let cr := categories_rng depth (forest_leaf_count (cd_cats d)) in
+  k < forest_leaf_count (cd_cats d) -> forest_leaf_count (cd_cats d) < xl_rowmax ->
+  r_c1 cr + N.of_nat i <= r_c2 cr /\
+  r_r2 cr + 1 - r_r1 cr = forest_leaf_count (cd_cats d) /\
+  len_N (levels (cd_cats d)) = r_c2 cr + 1 - r_c1 cr /\
+  (forall e, In e l -> fst e < forest_leaf_count (cd_cats d)) /\
+  NoDup (map fst l) /\
+  get sh (r_r1 cr - 1 + k) (r_c2 cr - N.of_nat i - 1) =
+    match lookup k l with Some lab => xl_cell lab | None => Empty end.
+Proof.
+  intros Hdepth Hsh Hd1 Hdm Hi cr Hk Hrows. unfold cr, categories_rng. cbn [r_c1 r_c2 r_r1 r_r2].
+  assert (Hlen : len_N (levels (cd_cats d)) = depth) by (apply levels_length; auto).
+  assert (Hil : N.of_nat i < depth).
+  { rewrite <- Hlen. unfold len_N. assert ((i < length (levels (cd_cats d)))%nat) by (apply nth_error_Some; congruence). lia. }
+  rewrite levels_nodes in Hi. rewrite nth_error_map in Hi.
+  destruct (nth_error (node_levels (cd_cats d)) i) as [nodes|] eqn:En; [|discriminate].
+  cbn [option_map] in Hi. inversion Hi; subst l. clear Hi.
+  pose proof (node_levels_spaced (cd_cats d)) as Hs. rewrite Forall_forall in Hs.
+  specialize (Hs nodes (nth_error_In _ _ En)).
+  repeat split; try lia.
+  - intros e He. unfold level_entries in He. apply in_map_iff in He as [ic [<- Hic]]. cbn [fst].
+    apply (spaced_bounds _ _ _ Hs ic Hic).
+  - rewrite level_entries_fst. eapply spaced_nodup; eauto.
+  - replace (2 - 1 + k) with (k + 1) by lia.
+    apply (cat_cell_level d depth sh Hdepth Hsh); auto.
+    + rewrite levels_nodes, nth_error_map, En. reflexivity.
+    + unfold in_dims, xl_rowmax, xl_colmax in *. apply andb_true_iff; split; lia.
+Qed.
+
+(** texts *)
+Lemma values_ref_text_render depth idx len t :
+  values_ref_text depth idx len = Ok t -> t = render_rng (values_rng depth idx len).
+Proof.
+  unfold values_ref_text. destruct (column_reference _) as [col|] eqn:E; cbn [bind]; [|discriminate].
+  apply column_reference_ok in E as [_ ->]. intros H; inversion H; reflexivity.
+Qed.
+
+Lemma series_name_ref_text_render depth idx t :
+  series_name_ref_text depth idx = Ok t ->
+  t = render_cell (column_letters (r_c1 (series_name_rng depth idx))) (r_r1 (series_name_rng depth idx)).
+Proof.
+  unfold series_name_ref_text. destruct (column_reference _) as [col|] eqn:E; cbn [bind]; [|discriminate].
+  apply column_reference_ok in E as [_ ->]. intros H; inversion H; reflexivity.
+Qed.
+
+Lemma series_ref_text_guard depth idx len :
+  (values_ref_text depth idx len = Err ValueErr <-> 16384 < series_col_number depth idx) /\
+  (series_name_ref_text depth idx = Err ValueErr <-> 16384 < series_col_number depth idx).
+Proof.
+  unfold values_ref_text, series_name_ref_text.
+  destruct (column_reference_guard (series_col_number depth idx)) as [G1 G2].
+  assert (1 <= series_col_number depth idx) by (unfold series_col_number; lia).
+  destruct (column_reference (series_col_number depth idx)) as [col|e] eqn:E; cbn [bind].
+  - split; (split; [discriminate|]); intros Hgt; destruct G1 as [_ G1]; specialize (G1 (or_intror Hgt)); discriminate.
+  - destruct (N.le_gt_cases (series_col_number depth idx) 16384) as [Hle|Hgt].
+    + specialize (G2 (conj H Hle)). discriminate.
+    + destruct G1 as [_ G1]. specialize (G1 (or_intror Hgt)). inversion G1; subst. split; split; auto.
+Qed.
+
+Lemma categories_ref_text_render depth leafs :
+  1 <= depth <= 26 -> categories_ref_text depth leafs = Ok (render_rng (categories_rng depth leafs)).
+Proof.
+  intros H. unfold categories_ref_text. replace (depth =? 0) with false by lia.
+  unfold render_rng, categories_rng. cbn [r_c1 r_c2 r_r1 r_r2].
+  rewrite (column_letters_single depth) by lia. rewrite (column_letters_single 1) by lia. reflexivity.
+Qed.
+
+(** the reversed range of an empty series *)
+Lemma empty_series_range depth idx col off :
+  r_r2 (values_rng depth idx 0) < r_r1 (values_rng depth idx 0) /\
+  r_r2 (xy_col_rng col off 0) < r_r1 (xy_col_rng col off 0).
+Proof. cbn. lia. Qed.
+
+(** verdicts: the property evaluated by the model on a chart data object *)
+Definition cat_verdict (b : bool) (d : catdata) : option bool :=
+  match cat_xml b d, cat_sheet d with
+  | Ok es, Ok sh => Some (forallb (agree_cat_ser sh) es)
+  | _, _ => None
+  end.
+Definition xy_verdict (b : bool) (all : list xyseries) : bool :=
+  forallb (agree_xy_ser (xy_sheet b all)) (xy_xml b all).
+
+Lemma cat_verdict_domain b d : cat_domain b d = true -> cat_verdict b d = Some true \/ cat_verdict b d = None.
+Proof.
+  intros H. unfold cat_verdict. destruct (cat_xml b d) as [es|] eqn:Ex; auto.
+  destruct (cat_sheet d) as [sh|] eqn:Es; auto. left. f_equal. eapply cat_chart_agrees; eauto.
+Qed.
+
+(** the workbook is written whenever the XML is (the only error both can raise is the
+    ValueError of a non-uniform hierarchy, which the XML writers hit first) *)
+Lemma cat_sheet_ok_of_xml b d es : cat_xml b d = Ok es -> exists sh, cat_sheet d = Ok sh.
+Proof.
+  unfold cat_xml, cat_sheet. destruct (forest_depth (cd_cats d)); cbn [bind]; [|discriminate].
+  intros _. eexists; reflexivity.
+Qed.
+
+(** histories *)
+Definition data_domain (bw : bool) (d : chart_data) : bool :=
+  match d with CatD cd => cat_domain bw cd | XyD _ ss => xy_domain ss end.
+
+Lemma data_agrees bw d x sh :
+  data_domain bw d = true -> xml_of bw d = Ok x -> sheet_of d = Ok sh -> agree_xml x sh = true.
+Proof.
+  destruct d as [cd|b ss]; cbn [data_domain xml_of sheet_of]; intros Hd Hx Hs.
+  - destruct (cat_xml bw cd) as [es|] eqn:E; cbn [bind] in Hx; [|discriminate].
+    inversion Hx; subst. cbn [agree_xml]. eapply cat_chart_agrees; eauto.
+  - inversion Hx; inversion Hs; subst. cbn [agree_xml]. apply xy_chart_agrees; auto.
+Qed.
+
+(** the data last written and the date system in force when it was written *)
+Fixpoint track (d : chart_data) (bw b : bool) (ops : list op) : chart_data * bool :=
+  match ops with
+  | [] => (d, bw)
+  | OpDate1904 b' :: r => track d bw b' r
+  | OpReplace d' :: r => track d' b b r
+  end.
+
+Definition state_of (st : chart) (d : chart_data) (bw : bool) : Prop :=
+  xml_of bw d = Ok (ch_xml st) /\ sheet_of d = Ok (ch_sheet st) /\ ch_parts st = 1 /\ ch_kind st = kind_of d.
+
+Lemma run_ops_err e ops : run_ops (Err e) ops = Err e.
+Proof. unfold run_ops. induction ops; cbn [fold_left bind]; auto. Qed.
+
+Lemma run_ops_track : forall ops st d bw st',
+  state_of st d bw -> run_ops (Ok st) ops = Ok st' ->
+  state_of st' (fst (track d bw (ch_date1904 st) ops)) (snd (track d bw (ch_date1904 st) ops)).
+Proof.
+  induction ops as [|o ops IH]; intros st d bw st' Hst Hrun.
+  - cbn in Hrun. inversion Hrun; subst. exact Hst.
+  - unfold run_ops in Hrun. cbn [fold_left bind] in Hrun. fold (run_ops (step st o) ops) in Hrun.
+    destruct o as [d'|b'].
+    + cbn [step] in Hrun. destruct Hst as [Hx [Hs [Hp Hk]]].
+      destruct (negb (kind_of d' =? ch_kind st)) eqn:Ek; [rewrite run_ops_err in Hrun; discriminate|].
+      destruct (xml_of (ch_date1904 st) d') as [x|] eqn:Ex; cbn [bind] in Hrun; [|rewrite run_ops_err in Hrun; discriminate].
+      destruct (sheet_of d') as [sh|] eqn:Es; cbn [bind] in Hrun; [|rewrite run_ops_err in Hrun; discriminate].
+      cbn [track]. eapply (IH _ d' (ch_date1904 st)) in Hrun.
+      * exact Hrun.
+      * unfold state_of. cbn [ch_xml ch_sheet ch_parts ch_kind]. rewrite Hp.
+        apply negb_false_iff, N.eqb_eq in Ek. repeat split; auto.
+    + cbn [step] in Hrun. cbn [track].
+      eapply (IH _ d bw) in Hrun; [exact Hrun|].
+      destruct Hst as [Hx [Hs [Hp Hk]]]. unfold state_of. cbn [ch_xml ch_sheet ch_parts ch_kind]. auto.
+Qed.
+
+Lemma new_chart_state d st : new_chart d = Ok st -> state_of st d false /\ ch_date1904 st = false.
+Proof.
+  unfold new_chart. destruct (xml_of false d) as [x|] eqn:Ex; cbn [bind]; [|discriminate].
+  destruct (sheet_of d) as [sh|] eqn:Es; cbn [bind]; [|discriminate].
+  intros H; inversion H; subst. unfold state_of. cbn. auto.
+Qed.
+
+Lemma history_agrees d0 ops st :
+  run_ops (new_chart d0) ops = Ok st ->
+  let last := track d0 false false ops in
+  xml_of (snd last) (fst last) = Ok (ch_xml st) /\ sheet_of (fst last) = Ok (ch_sheet st) /\
+  ch_parts st = 1 /\
+  (data_domain (snd last) (fst last) = true -> agree_chart st = true).
+Proof.
+  intros Hrun. destruct (new_chart d0) as [st0|e] eqn:E0; [|rewrite run_ops_err in Hrun; discriminate].
+  destruct (new_chart_state _ _ E0) as [Hst Hb].
+  pose proof (run_ops_track ops st0 d0 false st Hst Hrun) as H. rewrite Hb in H.
+  destruct H as [Hx [Hs [Hp Hk]]]. cbn zeta. repeat split; auto.
+  intros Hd. unfold agree_chart. eapply data_agrees; eauto.
+Qed.
+
+(** * 7. Outside the domain: what the model itself refutes; inside: examples *)
+
+Lemma long_string_truncated s :
+  formula_like s = false -> array_formula_like s = false -> url_like s = false ->
+  xl_strmax < len_N s ->
+  exists s', xl_write_str s = Str s' /\ len_N s' = xl_strmax /\ s' <> s /\
+             cell_agrees (Some (CStr s)) (xl_write_str s) = false.
+Proof.
+  intros H1 H2 H3 Hl. destruct s as [|x r]; [unfold len_N, xl_strmax in Hl; cbn in Hl; lia|].
+  exists (firstn (N.to_nat xl_strmax) (x :: r)).
+  assert (Hlen : length (firstn (N.to_nat xl_strmax) (x :: r)) = N.to_nat xl_strmax).
+  { apply firstn_length_le. unfold len_N in Hl. lia. }
+  assert (Hne : firstn (N.to_nat xl_strmax) (x :: r) <> x :: r).
+  { intros E. rewrite E in Hlen. unfold len_N in Hl. lia. }
+  unfold xl_write_str. rewrite H1, H2, H3. repeat split; auto.
+  - unfold len_N. rewrite Hlen. lia.
+  - cbn [cell_agrees]. destruct (str_eqb_spec (x :: r) (firstn (N.to_nat xl_strmax) (x :: r))); auto.
+    congruence.
+Qed.
+
+Definition wA : str := [97].
+Definition wB : str := [98].
+Definition w_one : val := Some (1%Z, 1%positive).
+Definition w_formula := mk_catdata [Cat (PStr wA) []] [mk_series (Some [61; 49; 43; 49]) [w_one]].
+Definition w_empty := mk_catdata [Cat (PStr wA) []] [mk_series (Some wB) []].
+Definition w_time := mk_catdata [Cat (PDateTime 737426 43200000000) []] [mk_series (Some wB) [w_one]].
+Definition w_1900 := mk_catdata [Cat (PDateTime 693596 0) []] [mk_series (Some wB) [w_one]].
+Definition w_date := mk_catdata [Cat (PDate 737426) []] [mk_series (Some wB) [w_one]].
+Definition w_none := mk_catdata [Cat (PNum 1 1) []; Cat PNone []] [mk_series (Some wB) [w_one]].
+Definition w_xy_empty := [mk_xyseries (Some wA) [(w_one, w_one, None)]; mk_xyseries (Some wB) [];
+                          mk_xyseries (Some wB) [(w_one, w_one, w_one)]].
+
+(** a three-level ragged hierarchy with None and number labels, series of unequal
+    lengths with missing values and a missing name *)
+Definition ex_cat := mk_catdata
+  [Cat (PStr wA) [Cat (PStr wB) [Cat (PStr wA) []; Cat PNone []]; Cat (PStr wA) [Cat (PNum 3 2) []]];
+   Cat (PStr wB) [Cat (PStr wB) [Cat (PStr wA) []]]]
+  [mk_series (Some wA) [w_one; None; Some (5%Z, 2%positive); w_one]; mk_series None [w_one];
+   mk_series (Some wB) [None; w_one]].
+Definition ex_dates := mk_catdata [Cat (PDate 693654) []; Cat (PDate 693655) []; Cat (PDateTime 737426 0) []]
+  [mk_series (Some wA) [w_one; None; w_one]].
+Definition ex_xy := [mk_xyseries (Some wA) [(w_one, w_one, None); (None, w_one, w_one)];
+                     mk_xyseries None [(w_one, None, w_one)];
+                     mk_xyseries (Some wB) [(w_one, w_one, w_one); (w_one, w_one, w_one); (None, None, None)]].
+
+Fixpoint chain (n : nat) : cat := match n with O => Cat (PStr wA) [] | S k => Cat (PStr wB) [chain k] end.
+Definition w_depth27 := mk_catdata [chain 26] [mk_series (Some wB) [w_one]].
+Definition ex_depth26 := mk_catdata [chain 25] [mk_series (Some wB) [w_one]].
+
+Lemma witnesses_refuted :
+  cat_verdict false w_formula = Some false /\ cat_verdict false w_empty = Some false /\
+  cat_verdict false w_time = Some false /\ cat_verdict false w_1900 = Some false /\
+  cat_verdict true w_date = Some false /\ cat_verdict false w_date = Some true /\
+  cat_verdict false w_none = Some false /\
+  cat_verdict false w_depth27 = Some false /\ cat_verdict false ex_depth26 = Some true /\
+  xy_verdict false w_xy_empty = false /\ xy_verdict true w_xy_empty = false.
+Proof. vm_compute. repeat split. Qed.
+
+Lemma depth27_ref_not_a_column :
+  categories_ref_text 27 1 = Ok (render_range [65] 2 [91] 2) /\ ~ (65 <= 91 <= 90).
+Proof. split; [vm_compute; reflexivity|lia]. Qed.
+
+Lemma empty_series_ref_text :
+  values_ref_text 1 0 0 = Ok [83; 104; 101; 101; 116; 49; 33; 36; 66; 36; 50; 58; 36; 66; 36; 49].
+Proof. vm_compute. reflexivity. Qed.
+
+Lemma examples_in_domain :
+  cat_domain false ex_cat = true /\ cat_verdict false ex_cat = Some true /\
+  cat_domain false ex_dates = true /\ cat_verdict false ex_dates = Some true /\
+  xy_domain ex_xy = true /\ xy_verdict false ex_xy = true /\ xy_verdict true ex_xy = true.
+Proof. vm_compute. repeat split. Qed.
+
+Lemma example_history :
+  exists st, run_ops (new_chart (CatD ex_cat)) [OpReplace (CatD ex_dates); OpDate1904 true; OpReplace (CatD ex_cat)] = Ok st
+             /\ agree_chart st = true /\ ch_parts st = 1.
+Proof. eexists. split; [vm_compute; reflexivity|]. split; vm_compute; reflexivity. Qed.
+
+Lemma example_colref :
+  column_reference 703 = Ok [65; 65; 65] /\ column_reference 16384 = Ok [88; 70; 68] /\
+  column_reference 16385 = Err ValueErr /\ column_reference 0 = Err ValueErr /\ parse_col [88; 70; 68] = 16384.
+Proof. vm_compute. repeat split. Qed.
